@@ -8,40 +8,73 @@ from fractions import Fraction
 import numpy as np
 import z3
 
-from symx.core import (PI_F, TWOPI_F, SBool, SInt, SReal, assume, const_array, eq_arrays, explore, integer, marray, mfloat, mval, real,
+from symx.core import (PI_F, TWOPI_F, SBool, SInt, SReal, assume, const_array, cur, eq_arrays, explore, integer, marray, mfloat, mval, real,
                        reals, resume, rv, single_path, slice_for, terms)
 from symx.runner import Ob
+from symx.ext_c04 import Chain, cbrt_pow, explore_inputs_first, fork_sign, sym_arctan
 from symx.stubs import shadow, sym_array
 
 ID = "C04"
-TECHNIQUE = ("symbolic execution of the real rotation helpers and frame conversions on z3 Real proxies in numpy object arrays; trigonometry by an "
-             "angle algebra ((cos,sin) pairs with c^2+s^2=1 and exact addition formulas); every identity is an SMT query (nlsat), unsat = identity "
-             "holds for all angles/vectors; the FK5 matrices are produced by the real ReductionParams.build on symbolic angles and then cut to "
-             "symbolic orthogonal matrices after their orthogonality has been proved")
-FLOAT_SEMANTICS = "Real-ideal (rounding outside the claim)"
+TECHNIQUE = ("symbolic execution of the real rotation helpers, frame conversions, calendar / sidereal-time functions and the geodetic closed form on z3 proxies "
+             "(Real / Int) in numpy object arrays; trigonometry by an angle algebra ((cos,sin) pairs with c^2+s^2=1 and exact addition formulas); sqrt / cube root / "
+             "arctan by contracts; every identity is an SMT query (nlsat / mixed integer-real arithmetic), unsat = holds for all inputs in the bounds, sat = "
+             "model -> concrete inputs -> replay on the real code.  The FK5 matrices are produced by the real ReductionParams.build on symbolic angles and then cut "
+             "to symbolic orthogonal matrices after their orthogonality has been proved.  The Borkowski closed form of ecef2lla is decided by a proof script: "
+             "lemma schemas (Ferrari resolvent, positive root, nearest normal ...) are proved by z3 on free variables and instantiated on the contract "
+             "variables of the executed path after the solver has matched them; nothing is assumed, a step that is not proved stops the script (undecided)")
+FLOAT_SEMANTICS = "Real-ideal (rounding outside the claim); calendar arithmetic exact Int/Real"
 ENCODED = [
     "resonaate.physics.maths:rot1", "resonaate.physics.maths:rot2", "resonaate.physics.maths:rot3", "resonaate.physics.maths:dotRot1",
-    "resonaate.physics.maths:dotRot2", "resonaate.physics.maths:dotRot3", "resonaate.physics.maths:skewSymmetric",
+    "resonaate.physics.maths:dotRot2", "resonaate.physics.maths:dotRot3", "resonaate.physics.maths:skewSymmetric", "resonaate.physics.maths:wrapAngle2Pi",
     "resonaate.physics.transforms.methods:sez2ecef", "resonaate.physics.transforms.methods:ecef2sez",
     "resonaate.physics.transforms.methods:eci2ecef", "resonaate.physics.transforms.methods:ecef2eci",
     "resonaate.physics.transforms.methods:rsw2eci", "resonaate.physics.transforms.methods:eci2rsw", "resonaate.physics.transforms.methods:ntw2eci",
-    "resonaate.physics.transforms.methods:spherical2cartesian", "resonaate.physics.transforms.methods:cartesian2spherical",
-    "resonaate.physics.transforms.methods:razel2sez", "resonaate.physics.transforms.methods:sez2razel",
-    "resonaate.physics.transforms.methods:lla2ecef",
+    "resonaate.physics.transforms.methods:lla2ecef", "resonaate.physics.transforms.methods:ecef2lla",
     "resonaate.physics.transforms.reductions:ReductionParams.build", "resonaate.physics.transforms.reductions:getRotR",
     "resonaate.physics.transforms.reductions:PolarMotion.__init__", "resonaate.physics.transforms.reductions:PrecessionNutation.__init__",
     "resonaate.physics.time.conversions:dayOfYear", "resonaate.physics.time.conversions:greenwichApparentTime",
-    "resonaate.physics.time.conversions:greenwichMeanTime",
+    "resonaate.physics.time.conversions:greenwichMeanTime", "resonaate.physics.time.conversions:utc2TerrestrialTime",
+    "resonaate.physics.time.conversions:seconds2hms", "resonaate.physics.time.stardate:JulianDate.getJulianDate",
 ]
-BOUNDS = {"angles": "all real angles", "vectors": "all real 3-/6-vectors (non-zero where a direction is normalised)",
-          "dates (O7)": "every calendar date 2014-01-01 .. 2022-12-31 incl. leap days, any time of day (symbolic fraction)"}
-OUTSIDE = ["ecef2lla closed form (cube roots / arccos branch)", "numerical content of the IAU-76 nutation series and EOP table values",
-           "leap-second jumps (dut1/dAT are symbols)", "floating-point rounding"]
-ASSUMPTIONS = ["angle algebra for cos/sin; sqrt contract; arcsin/arctan2 contracts", "pi identified with const.PI",
-               "O4b: rot_pnr / rot_w replaced by symbolic matrices constrained only by the orthogonality proved of the real ones in O4a"]
-LEVEL_TEXT = ("Bounded symbolic verification: each conversion pair is executed on symbolic states and the inverse/rigidity identities are discharged by z3 "
-              "for all real inputs; algebraic slips (a wrong matrix entry, a missing transpose, a sign) are satisfiable queries with concrete replays.")
-LEVEL_NOTE = "Real arithmetic; trig via angle algebra; FK5 numeric series, EOP data and ecef2lla are outside; Earth-rate continuity is checked on the sidereal-time polynomial."
+BOUNDS = {"angles": "all real angles", "vectors": "all real 3-/6-vectors (non-zero where a direction is normalised; O5: r, v, r x v non-zero)",
+          "dates (O7a dayOfYear)": "every Gregorian date 1583-01-01 .. 2399-12-31 (symbolic year, month, day), any hour/minute, second in [-1, 61]",
+          "dates (O7b/O7d/O7e getRotR, utc2TerrestrialTime, New Year)": "every instant (symbolic month, day, hour, minute, second, microsecond) of each year 2013..2023 (quick) / 1975..2060 (thorough), "
+                                                                        "year enumerated; dUT1 in [-1, 1] s (O7e: [-0.9, 0.9]), eq. of equinoxes in [-1e-3, 1e-3] rad, dAT in [10, 40] s; "
+                                                                        "dUT1 not at an exact half-microsecond tie when the code rounds it through timedelta",
+          "year rollover (O7c)": "GAST(y, days_in_year + f) vs GAST(y+1, f), f in [0,1) symbolic, the same years",
+          "positions (O8 ecef2lla)": "every ECEF position on or outside the reference ellipsoid scaled by 0.98 (i.e. from about 127 km below the surface) and within 70000 km of the centre (> 10 Earth radii), "
+                                     "incl. polar axis, equatorial plane, antimeridian; three input classes: on the axis, x != 0, x = 0",
+          "geodetic triples (O8a, O8u)": "all latitudes with cos(lat) > 0 plus the two poles pinned, all longitudes, all heights (O8u: h >= -120 km against any second preimage with h >= -6000 km)",
+          "tolerances": "rotation angle 1e-9 rad (2e-9 across New Year), day of year 1e-9 d, ttt 1e-12 centuries, ECEF round trip 1e-6 km (exact equality is what is proved off the polar axis), "
+                        "polar closed form 1e-9 km / cos(lat) <= 1e-18"}
+OUTSIDE = ["floating-point rounding everywhere (in doubles the real ecef2lla loses up to 0.25 m within about 1 m of the polar axis at GEO height and divides by an underflowed 0 on the axis itself)",
+           "ecef2lla inside the ellipsoid scaled by 0.98 (deeper than about 127 km), in particular the D < 0 / arccos branch, which is proved unreachable in the region",
+           "spherical2cartesian / cartesian2spherical / razel2sez / sez2razel / razel2radec / radec2razel (DESIGN O6): the rate components of the round trip were not decided by nlsat; not claimed",
+           "numerical content of the IAU-76 nutation series and EOP table values, EOP interpolation", "leap-second jumps (dut1/dAT are symbols; the UTC day is taken as 86400 s)",
+           "the composition steps 'round trip + injectivity => two-sided inverse' and '=> mirror symmetry in z' are stated in LEVEL_NOTE, each ingredient is solver-decided, the two-line composition is not",
+           "O7b/O7e observe the angle handed to rot3 inside getRotR (a recording wrapper around the real rot3); a getRotR that builds its matrix without rot3 makes these obligations report a harness error, not a violation"]
+ASSUMPTIONS = ["angle algebra for cos/sin; sqrt contract (r >= 0, r^2 = x); arcsin/arctan2 contracts; arctan(u) := arctan2(u, 1) with oddness/monotonicity between applications",
+               "x ** (1/3) -> cube-root contract (c >= 0, c^3 = x, domain x >= 0 as numpy yields nan for a negative base; strictly monotone between applications)",
+               "numpy.sign -> fork into +1 / -1 / 0", "pi identified with const.PI (the double)",
+               "Earth.radius / Earth.eccentricity enter as the exact rational values of their doubles, so sqrt(1 - e^2) is the exact real root (O8)",
+               "O4b: rot_pnr / rot_w replaced by symbolic matrices constrained only by the orthogonality proved of the real ones in O4a",
+               "O5: the RSW round trips use 'W (W^T d) = d for every W with W W^T = I' proved on a symbolic matrix; the real matrix's orthonormality is proved entry-wise",
+               "O7b/O7e: utc_date is a model object with the calendar fields (year concrete per obligation, the rest z3 Ints); utc_date + timedelta(seconds=x) is civil-calendar arithmetic "
+               "with carries by forking and the nearest-microsecond contract; the rotation angle is read from the argument of rot3",
+               "O7b/O7c/O7e reference: IAU-1982 GMST polynomial evaluated in exact rationals at 1 Jan 0h of the year plus its exact derivative times the true elapsed UT1 days "
+               "(calendar oracle: cumulative-days table + Gregorian rule, validated against CPython datetime on 240 dates in every run)",
+               "O7d: JulianDate (a float subclass) is re-based on the symbolic Real (the real getJulianDate body runs unchanged); float() is the identity on proxies; divmod/floordiv of a proxy by a positive literal",
+               "O8-x/y/axis: proof script (symx.ext_c04.Chain) - schemas proved on free variables, contract variables of the path matched by solver-proved equality of their arguments; "
+               "domain conditions (sqrt/cbrt arguments, divisors) are proved, not assumed; when a step fails its solver model is only a candidate that is replayed against the behavioural oracle",
+               "O8 reachability twin: satisfiability of the branch conditions + preconditions of each path (contract variables are total on their proved domains)"]
+LEVEL_TEXT = ("Bounded symbolic verification: each conversion pair is executed on symbolic states and the inverse/rigidity identities are discharged by z3 for all real inputs; "
+              "day-of-year is proved equal to the civil calendar for every Gregorian date; the Earth-rotation angle of getRotR is proved to advance at the IAU-82 rate through every "
+              "instant of the enumerated years incl. leap days and New Year; terrestrial time is proved linear through the day boundary; ecef2lla's closed form is proved to be a right "
+              "inverse of lla2ecef on the stated region, to pick the nearest normal and the correct hemisphere, with the axis/equator closed forms; lla2ecef is proved to satisfy the "
+              "definition of geodetic coordinates and to be injective.  Algebraic and calendar slips are satisfiable queries with concrete replays.")
+LEVEL_NOTE = ("Real arithmetic; trig via angle algebra; FK5 numeric series and EOP data outside. Geodetic: O8-x/y/axis give lla2ecef(ecef2lla(x)) = x with alt >= -130 km and |lat| <= pi/2; "
+              "O8u gives uniqueness of such a preimage, hence ecef2lla(lla2ecef(p)) = p for h >= -120 km and, with O8a 'mirror', ecef2lla(x, y, -z) = (-lat, lon, alt). "
+              "Continuity: O7a (calendar) + O7b (every instant of a year against a reference that is linear in true elapsed time) + O7c/O7e (year boundary) + O7d (TT).")
 
 I3 = const_array(np.eye(3))
 
@@ -266,7 +299,1350 @@ def o4b_eci(rep):
         rep.reachable("orthogonal-matrices-exist", cons, timeout_ms=60000)
 
 
+# --------------------------------------------------------------------------------
+# O5: satellite frames RSW / NTW
+# --------------------------------------------------------------------------------
+def _cone(goal, cons):
+    """constraint slicing by contract variables (names with '!'): keep the constraints over input variables and those contract variables that are
+    connected to the goal's.  Dropping constraints is sound for proving; a `sat` of a sliced query is only a candidate (it is replayed)."""
+    from symx.core import free_vars
+
+    cv = lambda t: {n for n in free_vars(t) if "!" in n}  # noqa: E731
+    S = cv(goal)
+    cvs = [cv(c) for c in cons]
+    changed = True
+    while changed:
+        changed = False
+        for k in cvs:
+            if k & S and not k <= S:
+                S |= k
+                changed = True
+    return [c for c, k in zip(cons, cvs) if k <= S]
+
+
+def replay_rsw(d):
+    from resonaate.physics.transforms import methods as T
+
+    x, y, z = np.array(d["x"]), np.array(d["y"]), np.array(d["z"])
+    r, v = x[:3], x[3:]
+    h = np.cross(r, v)
+    out = {}
+    bad = False
+    for name, f, ax in (("rsw", T.rsw2eci, (r, None, h)), ("ntw", T.ntw2eci, (None, v, h))):
+        M = np.array([f(x, e)[:3] for e in np.eye(6)[:3]]).T
+        e1 = np.abs(M.T @ M - np.eye(3)).max()
+        e2 = abs(np.linalg.det(M) - 1)
+        e3 = max(np.abs(np.cross(M[:, k], a)).max() / max(1e-300, np.linalg.norm(a)) for k, a in enumerate(ax) if a is not None)
+        e4 = min(M[:, k].dot(a) / max(1e-300, np.linalg.norm(a)) for k, a in enumerate(ax) if a is not None)
+        fz = f(x, z)
+        e5 = max(np.abs(fz[:3] - M @ z[:3]).max(), np.abs(fz[3:] - M @ z[3:]).max()) / max(1.0, np.abs(z).max())
+        out[name] = {"orthonormal": e1, "det-1": e2, "axis misalignment": e3, "axis orientation": e4, "linear": e5}
+        bad = bad or max(e1, e2, e3, e5) > 1e-9 or e4 < 0.5
+    sc = max(1.0, np.abs(x).max(), np.abs(y).max())
+    e6 = np.abs(T.rsw2eci(x, T.eci2rsw(x, y)) - (y - x)).max() / sc
+    e7 = np.abs(T.eci2rsw(x, x + T.rsw2eci(x, z)) - z).max() / max(1.0, np.abs(z).max())
+    out["rsw2eci(eci2rsw)"] = e6
+    out["eci2rsw(rsw2eci)"] = e7
+    return bool(bad or e6 > 1e-9 or e7 > 1e-9), out
+
+
+def o5_rsw(rep):
+    from resonaate.physics.transforms import methods as T
+
+    with single_path(recip=True) as p:
+        x, y, z = reals("x", 6), reals("y", 6), reals("z", 6)
+        r, v = x[:3], x[3:]
+        h = np.cross(r, v)
+        n2 = lambda q: (q[0] * q[0] + q[1] * q[1] + q[2] * q[2]).t  # noqa: E731
+        assume(n2(r) > 0, n2(v) > 0, n2(h) > 0)  # a direction is normalised: non-degenerate orbit state
+        inputs = lambda m: {"x": marray(m, x), "y": marray(m, y), "z": marray(m, z)}  # noqa: E731
+        unit = const_array(np.eye(6))
+        kw = dict(timeout_ms=60000, inputs=inputs, replay=replay_rsw)
+        with shadow(T, array=sym_array):
+            mats = {}
+            for name, f in (("rsw", T.rsw2eci), ("ntw", T.ntw2eci)):
+                mats[name] = np.array([f(x, unit[k])[:3] for k in range(3)], dtype=object).T
+                fz = f(x, z)
+                M = mats[name]
+                g_ = z3.And(eq_arrays(fz[:3], M.dot(z[:3])), eq_arrays(fz[3:], M.dot(z[3:])))
+                rep.prove(f"{name}-linear", g_, _cone(g_, p.constraints()), sample=f"{name}2eci(x, z) = [M z_r, M z_v] with M = images of the unit vectors", **kw)
+            rel = T.eci2rsw(x, y)
+            back = T.rsw2eci(x, rel)
+            fwd = T.eci2rsw(x, x + T.rsw2eci(x, z))
+        cons = p.constraints()
+
+        def prove(label, goal, sample, **extra):
+            rep.prove(label, goal, _cone(goal, cons), sample=sample, **dict(kw, **extra))
+
+        for name, M in mats.items():
+            G, G2 = M.T.dot(M), M.dot(M.T)
+            for i_ in range(3):
+                for j in range(i_, 3):
+                    want = 1 if i_ == j else 0
+                    prove(f"{name}-MtM[{i_}{j}]", G[i_, j].t == want, f"columns of the {name.upper()} rotation are orthonormal")
+                    prove(f"{name}-MMt[{i_}{j}]", G2[i_, j].t == want, f"rows of the {name.upper()} rotation are orthonormal")
+            det = M[:, 0].dot(np.cross(M[:, 1], M[:, 2]))
+            prove(f"{name}-det", det.t == 1, f"{name.upper()} rotation is right-handed (det = +1)")
+        R_, N_ = mats["rsw"], mats["ntw"]
+        for lab, col, axis in (("rsw-R-axis", R_[:, 0], r), ("rsw-W-axis", R_[:, 2], h), ("ntw-T-axis", N_[:, 1], v), ("ntw-W-axis", N_[:, 2], h)):
+            prove(lab, z3.And(eq_arrays(np.cross(col, axis), const_array(np.zeros(3))), col.dot(axis).t > 0), f"{lab}: the axis points along the documented vector (radial / velocity / orbit normal)")
+        # round trips: (1) the real output is M (M^T d) resp. M^T (M z) - ring identity on the real terms; (2) W (W^T d) = d for every W with W W^T = I -
+        # proved on a symbolic matrix by the linearisation prover; (3) the real matrix satisfies the hypothesis of (2) (the MMt / MtM items above)
+        W, dv = reals("W_", 3, 3), reals("d_", 3)
+        ent = [(i_, j) for i_ in range(3) for j in range(i_, 3)]
+        hy_r = [W.dot(W.T)[i_, j].t == (1 if i_ == j else 0) for i_, j in ent]
+        hy_c = [W.T.dot(W)[i_, j].t == (1 if i_ == j else 0) for i_, j in ent]
+        with shadow(T, array=sym_array):
+            zz = T.rsw2eci(x, z)
+        d6 = y - x
+        for part, sl in (("r", slice(0, 3)), ("v", slice(3, 6))):
+            g1 = eq_arrays(back[sl], R_.dot(R_.T.dot(d6[sl])))
+            prove(f"rsw2eci(eci2rsw).{part}:shape", g1, "rsw2eci(x, eci2rsw(x, y)) = M (M^T (y - x))")
+            g2 = eq_arrays(fwd[sl], R_.T.dot(R_.dot(z[sl])))
+            prove(f"eci2rsw(rsw2eci).{part}:shape", g2, "eci2rsw(x, x + rsw2eci(x, z)) = M^T (M z)")
+        for k in range(3):
+            rep.prove(f"orthogonal-roundtrip[{k}]", W.dot(W.T.dot(dv))[k].t == dv[k].t, hy_r, linearize=True, timeout_ms=60000,
+                      sample="W (W^T d) = d for every matrix with W W^T = I (instantiated with the real RSW matrix, whose orthonormality is proved above) => rsw2eci(x, eci2rsw(x, y)) = y - x")
+            rep.prove(f"orthogonal-roundtrip-T[{k}]", W.T.dot(W.dot(dv))[k].t == dv[k].t, hy_c, linearize=True, timeout_ms=60000,
+                      sample="W^T (W d) = d for every matrix with W^T W = I => eci2rsw(x, x + rsw2eci(x, z)) = z")
+        rep.reachable("non-degenerate-state", cons + [x[0].t == 7000, x[1].t == 0, x[2].t == 0, x[3].t == 0, x[4].t == 7, x[5].t == 1], timeout_ms=60000)
+
+
+# --------------------------------------------------------------------------------
+# O7: calendar arithmetic and continuity of the Earth-rotation angle
+# --------------------------------------------------------------------------------
+_CUM = [0, 31, 59, 90, 120, 151, 181, 212, 243, 273, 304, 334]  # days before month m in a common year (oracle table, independent of /repo)
+_DIM = [31, 28, 31, 30, 31, 30, 31, 31, 30, 31, 30, 31]
+TOL_RAD = Fraction(1, 10**9)
+
+
+def _isleap(y):
+    return y % 4 == 0 and (y % 100 != 0 or y % 400 == 0)
+
+
+def _leap_t(y):
+    """Gregorian leap rule on a z3 Int term (the oracle's own statement of it)"""
+    return z3.And(y % 4 == 0, z3.Or(y % 100 != 0, y % 400 == 0))
+
+
+def _table_t(m, table, leap, leap_from):
+    """table[m-1] (+1 in leap years from month `leap_from` on) as a z3 Int term of the month term m"""
+    t = z3.IntVal(table[11]) + z3.If(leap, 1, 0) if 12 >= leap_from else z3.IntVal(table[11])
+    for k in range(11, 0, -1):
+        v = z3.IntVal(table[k - 1])
+        if k >= leap_from:
+            v = v + z3.If(leap, 1, 0)
+        t = z3.If(m == k, v, t)
+    return t
+
+
+def _days_before_t(m, d, leap):
+    """whole days from 1 January 00:00 to the start of day (m, d) of the same year"""
+    return _table_t(m, _CUM, leap, 3) + d - 1
+
+
+def _dim_t(m, leap):
+    t = z3.IntVal(31)
+    for k in range(11, 0, -1):
+        t = z3.If(m == k, z3.If(leap, 29, 28) if k == 2 else z3.IntVal(_DIM[k - 1]), t)
+    return t
+
+
+def _oracle_selfcheck(rep):
+    """translator validation of the calendar oracle against CPython's datetime on pinned dates (not a deciding step)"""
+    y, m, d = z3.Ints("oy om od")
+    term = _days_before_t(m, d, _leap_t(y))
+    dimt = _dim_t(m, _leap_t(y))
+    bad = []
+    for yy in (1600, 1700, 1900, 1999, 2000, 2016, 2019, 2020, 2100, 2399):
+        for mm in range(1, 13):
+            last = (_dt.date(yy + (mm == 12), mm % 12 + 1, 1) - _dt.timedelta(days=1)).day
+            for dd in (1, last):
+                got = z3.simplify(z3.substitute(term, (y, z3.IntVal(yy)), (m, z3.IntVal(mm)), (d, z3.IntVal(dd)))).as_long()
+                if got != (_dt.date(yy, mm, dd) - _dt.date(yy, 1, 1)).days:
+                    bad.append((yy, mm, dd, got))
+            if z3.simplify(z3.substitute(dimt, (y, z3.IntVal(yy)), (m, z3.IntVal(mm)))).as_long() != last:
+                bad.append((yy, mm, "dim"))
+    if bad:
+        rep.error("calendar-oracle", f"oracle disagrees with datetime on {bad[:5]}")
+    rep.note("calendar oracle (cumulative-days table + Gregorian rule) agrees with datetime on 240 pinned dates")
+
+
+def replay_doy(d):
+    from resonaate.physics.time.conversions import dayOfYear
+
+    y, m, dd, h, mi, s = int(d["year"]), int(d["month"]), int(d["day"]), int(d["hour"]), int(d["minute"]), float(d["second"])
+    got = float(dayOfYear(y, m, dd, h, mi, s))
+    exp = (_dt.date(y, m, dd) - _dt.date(y, 1, 1)).days + 1 + (h * 3600 + mi * 60 + s) / 86400.0
+    return abs(got - exp) > 5e-10, {"dayOfYear": got, "true day of year (datetime)": exp, "date": f"{y:04d}-{m:02d}-{dd:02d} {h:02d}:{mi:02d}:{s}"}
+
+
+def _o7a(lo, hi):
+    def o7a_doy(rep):
+        from resonaate.physics.time import conversions as CV
+
+        _oracle_selfcheck(rep)
+
+        def run():
+            y, m, d, h, mi = integer("year"), integer("month"), integer("day"), integer("hour"), integer("minute")
+            s = real("second")
+            leap = _leap_t(y.t)
+            assume(y.t >= lo, y.t <= hi, m.t >= 1, m.t <= 12, d.t >= 1, d.t <= _dim_t(m.t, leap), h.t >= 0, h.t <= 23, mi.t >= 0, mi.t <= 59,
+                   s.t >= -1, s.t <= 61)
+            return (y, m, d, h, mi, s), CV.dayOfYear(y, m, d, h, mi, s)
+
+        res = explore(run, max_paths=1500, max_depth=200)
+        rep.note(f"{len(res)} paths of dayOfYear")
+        tol = rv(TOL_RAD)
+        seen = {}
+        for r in res:
+            if r.exc is not None:
+                rep.error(f"doy[{_tag(r)}]", f"dayOfYear raised {type(r.exc).__name__}: {r.exc}")
+                continue
+            (y, m, d, h, mi, s), out = r.out
+            leap = _leap_t(y.t)
+            oracle = z3.ToReal(_days_before_t(m.t, d.t, leap) + 1) + z3.ToReal(h.t * 3600 + mi.t * 60) / 86400 + s.t / 86400
+            got = terms(out)[0]
+            inputs = lambda mo, y=y, m=m, d=d, h=h, mi=mi, s=s: {"year": mval(mo, y), "month": mval(mo, m), "day": mval(mo, d), "hour": mval(mo, h),  # noqa: E731
+                                                               "minute": mval(mo, mi), "second": mfloat(mo, s.t)}
+            rep.prove(f"doy[{_tag(r)}]", z3.And(got - oracle <= tol, oracle - got <= tol), r.constraints, inputs=inputs, replay=replay_doy,
+                      sample="dayOfYear(y,m,d,h,mi,s) = days since 1 Jan (cumulative table + Gregorian leap rule) + 1 + day fraction")
+            # which interesting dates does this path carry?  (vacuity guards)
+            for name, cond in (("29-Feb", z3.And(m.t == 2, d.t == 29)), ("1-Mar-leap", z3.And(m.t == 3, d.t == 1, leap)), ("31-Dec-leap", z3.And(m.t == 12, d.t == 31, leap)),
+                               ("1-Feb-leap", z3.And(m.t == 2, d.t == 1, leap)), ("1-Jan", z3.And(m.t == 1, d.t == 1)),
+                               ("century-common-year-Mar", z3.And(y.t % 100 == 0, z3.Not(leap), m.t == 3)), ("400-year-29-Feb", z3.And(y.t % 400 == 0, m.t == 2, d.t == 29))):
+                if name not in seen and rep.feasible(f"reach:{name}[{_tag(r)}]", r.constraints + [cond]) not in (None, True):
+                    seen[name] = True
+        need = ["29-Feb", "1-Mar-leap", "31-Dec-leap", "1-Feb-leap", "1-Jan"] + (["century-common-year-Mar"] if lo <= 1900 <= hi or lo <= 2100 <= hi else []) + (["400-year-29-Feb"] if lo <= 2000 <= hi else [])
+        for name in need:
+            if name not in seen:
+                rep.error(f"reach:{name}", "vacuous: no path of dayOfYear carries this date class")
+
+    return o7a_doy
+
+
+def _gmst82_sec(T):
+    """IAU-1982 GMST (seconds) as an exact rational polynomial of UT1 Julian centuries since J2000 (Aoki et al. 1982 constants)"""
+    return Fraction("67310.54841") + (876600 * 3600 + Fraction("8640184.812866")) * T + Fraction("0.093104") * T * T - Fraction("6.2e-6") * T * T * T
+
+
+def _gmst82_rate(T):
+    """d GMST / d t in revolutions per UT1 day (exact derivative of the same polynomial)"""
+    return ((876600 * 3600 + Fraction("8640184.812866")) + 2 * Fraction("0.093104") * T - 3 * Fraction("6.2e-6") * T * T) / (36525 * 86400)
+
+
+def _ref_year(year):
+    """(GMST at 1 Jan 0h UT1 in rad, Earth rate in rad/day) of the reference, exact rationals; pi is the code's double"""
+    jd1 = Fraction(_dt.date(year, 1, 1).toordinal()) + Fraction("1721424.5")
+    T0 = (jd1 - 2451545) / 36525
+    return _gmst82_sec(T0) * Fraction(1, 240) * PI_F / 180, _gmst82_rate(T0) * TWOPI_F
+
+
+def _wrap_pm(x):
+    return (x + math.pi) % (2 * math.pi) - math.pi
+
+
+def replay_rotr(d):
+    from resonaate.physics.transforms.reductions import getRotR
+
+    y = int(d["year"])
+    t = _dt.datetime(y, int(d["month"]), int(d["day"]), int(d["hour"]), int(d["minute"]), int(d["second"]), int(d["microsecond"]))
+    R = getRotR(t, float(d["dut1"]), float(d["eqe"]))
+    got = math.atan2(R[1, 0], R[0, 0])
+    g0, w = _ref_year(y)
+    E = Fraction((t.date() - _dt.date(y, 1, 1)).days) + (Fraction(t.hour * 3600 + t.minute * 60 + t.second) + Fraction(t.microsecond, 10**6) + Fraction(float(d["dut1"]))) / 86400
+    exp = float((g0 + w * E + Fraction(float(d["eqe"]))) % TWOPI_F)
+    diff = _wrap_pm(got - exp)
+    ortho = float(np.abs(R @ R.T - np.eye(3)).max())
+    return abs(diff) > 5e-10 or ortho > 1e-12, {"angle of getRotR (rad)": got, "reference GMST82(1 Jan) + rate*elapsed + eqe (rad)": exp, "difference (rad)": diff,
+                                                "difference (deg)": math.degrees(diff), "utc": t.isoformat()}
+
+
+def _sint(x):
+    return x if isinstance(x, SInt) else SInt(int(x))
+
+
+class _Td:
+    """model of datetime.timedelta(seconds=..., ...) for |value| < 1 day: whole microseconds, rounded half-to-even like CPython"""
+
+    def __init__(self, days=0, seconds=0, microseconds=0, **kw):
+        from symx.core import Unsupported, _real_term
+
+        if kw:
+            raise Unsupported(f"timedelta model: {sorted(kw)}")
+        tot = SReal(_real_term(days)) * 86400 * 10**6 + SReal(_real_term(seconds)) * 10**6 + SReal(_real_term(microseconds))
+        ts = z3.simplify(tot.t)
+        if z3.is_rational_value(ts):
+            self.us = SInt(z3.simplify(z3.ToInt(tot.rint().t)))
+        else:
+            # nearest whole microsecond as a linear contract; exact half-microsecond ties are excluded from the inputs (a bound: their replay would
+            # depend on the binary rounding of the decimal value)
+            k = cur().new("td_us", "int")
+            assume(z3.ToReal(k) - rv(Fraction(1, 2)) < ts, ts < z3.ToReal(k) + rv(Fraction(1, 2)))
+            self.us = SInt(k)
+
+
+class _Utc:
+    """model of a datetime for the code under analysis: calendar fields (year a Python int, the others Python ints or z3 Int proxies);
+    `utc + timedelta` is civil-calendar arithmetic with carries decided by forking (shift of less than one day)"""
+
+    def __init__(self, year, month, day, hour, minute, second, microsecond):
+        self.year, self.month, self.day, self.hour, self.minute, self.second, self.microsecond = year, month, day, hour, minute, second, microsecond
+
+    def _dim(self, y, m):
+        return SInt(z3.simplify(_dim_t(_sint(m).t, z3.BoolVal(_isleap(y)))))
+
+    def __add__(self, td):
+        from symx.core import Unsupported
+
+        if not isinstance(td, _Td):
+            return NotImplemented
+        DAY = 86400 * 10**6
+        us = ((_sint(self.hour) * 60 + self.minute) * 60 + self.second) * 10**6 + self.microsecond + td.us
+        y, m, d = self.year, _sint(self.month), _sint(self.day)
+        if us < 0:
+            us = us + DAY
+            if d > 1:
+                d = d - 1
+            elif m > 1:
+                m = m - 1
+                d = self._dim(y, m)
+            else:
+                y, m, d = y - 1, SInt(12), SInt(31)
+        elif us >= DAY:
+            us = us - DAY
+            if d < self._dim(y, m):
+                d = d + 1
+            elif m < 12:
+                m, d = m + 1, SInt(1)
+            else:
+                y, m, d = y + 1, SInt(1), SInt(1)
+        if (us < 0) | (us >= DAY):
+            raise Unsupported("datetime model: shift of a day or more")
+        # time-of-day fields: the unique (H, Mi, S, U) in range with ((H*60 + Mi)*60 + S)*1e6 + U == us (linear contract instead of div/mod terms)
+        p = cur()
+        H, Mi, S_, U = (SInt(p.new(n, "int")) for n in ("hour", "minute", "second", "micro"))
+        assume(H.t >= 0, H.t <= 23, Mi.t >= 0, Mi.t <= 59, S_.t >= 0, S_.t <= 59, U.t >= 0, U.t <= 999999, ((H.t * 60 + Mi.t) * 60 + S_.t) * 10**6 + U.t == us.t)
+        return _Utc(y, m, d, H, Mi, S_, U)
+
+    __radd__ = __add__
+
+    def __sub__(self, td):
+        if isinstance(td, _Td):
+            neg = _Td()
+            neg.us = -td.us
+            return self + neg
+        return NotImplemented
+
+
+def _run_rotr(year):
+    from resonaate.physics import maths as M
+    from resonaate.physics.transforms import reductions as RD
+
+    cap = []
+
+    def rec_rot3(a):
+        cap.append(a)
+        return M.rot3(a)
+
+    m, d, h, mi, s, us = (integer(n) for n in ("month", "day", "hour", "minute", "second", "microsecond"))
+    dut1, eqe = real("dut1"), real("eqe")
+    leap = z3.BoolVal(_isleap(year))
+    assume(m.t >= 1, m.t <= 12, d.t >= 1, d.t <= _dim_t(m.t, leap), h.t >= 0, h.t <= 23, mi.t >= 0, mi.t <= 59, s.t >= 0, s.t <= 59, us.t >= 0, us.t <= 999999,
+           dut1.t >= -1, dut1.t <= 1, eqe.t >= -Fraction(1, 1000), eqe.t <= Fraction(1, 1000))
+    u = _Utc(year, m, d, h, mi, s, us)
+    with shadow(RD, rot3=rec_rot3, timedelta=_Td):
+        R = RD.getRotR(u, dut1, eqe)
+    if len(cap) != 1:
+        raise RuntimeError("getRotR did not build its matrix with exactly one rot3 call: the angle cannot be observed")
+    return (m, d, h, mi, s, us, dut1, eqe), -cap[0], R, leap
+
+
+def _o7b(years):
+    def o7b_gast(rep):
+        tol = rv(TOL_RAD)
+        for year in years:
+            res = explore(lambda year=year: _run_rotr(year), max_paths=400, max_depth=200)
+            g0, w = _ref_year(year)
+            months = set()
+            for r in res:
+                lab = f"{year}[{_tag(r)}]"
+                if r.exc is not None:
+                    rep.error(f"rotation-angle {lab}", f"getRotR raised {type(r.exc).__name__}: {r.exc}")
+                    continue
+                (m, d, h, mi, s, us, dut1, eqe), theta, R, leap = r.out
+                p = r.path
+                E = z3.ToReal(_days_before_t(m.t, d.t, leap)) + (z3.ToReal(h.t * 3600 + mi.t * 60 + s.t) + z3.ToReal(us.t) / 1000000 + dut1.t) / 86400
+                ref = rv(g0) + rv(w) * E + eqe.t
+                with resume(p):
+                    dm = (theta - SReal(ref)) % (2 * math.pi)
+                inputs = lambda mo, v=(m, d, h, mi, s, us, dut1, eqe), year=year: dict(year=year, month=mval(mo, v[0]), day=mval(mo, v[1]), hour=mval(mo, v[2]), minute=mval(mo, v[3]),  # noqa: E731
+                                                                                   second=mval(mo, v[4]), microsecond=mval(mo, v[5]), dut1=mfloat(mo, v[6].t), eqe=mfloat(mo, v[7].t))
+                rep.prove(f"rotation-angle {lab}", z3.Or(dm.t <= tol, dm.t >= rv(TWOPI_F) - tol), p.constraints(), timeout_ms=60000, inputs=inputs, replay=replay_rotr,
+                          sample="angle of getRotR(utc, dut1, eqe) = GMST82(1 Jan 0h) + rate * (true elapsed UT1 days since 1 Jan) + eqe (mod 2pi) within 1e-9 rad, all instants of the year")
+                for k in range(1, 13):
+                    if k not in months and rep.feasible(f"reach:{year}-{k:02d}[{_tag(r)}]", p.constraints() + [m.t == k, d.t == (29 if (k == 2 and _isleap(year)) else _DIM[k - 1])]) not in (None, True):
+                        months.add(k)
+            if len(months) != 12:
+                rep.error(f"reach:{year}", f"vacuous: months reached {sorted(months)}")
+            # the reference itself is continuous over the year boundary (exact rational evaluation of the IAU-82 polynomial; oracle sanity, not a claim about /repo)
+            g1, _w1 = _ref_year(year + 1)
+            n = 366 if _isleap(year) else 365
+            jump = float((g0 + w * n - g1 + PI_F) % TWOPI_F - PI_F)
+            rep.note(f"reference: GMST82 linearised over {year} misses GMST82(1 Jan {year + 1}) by {jump:.3e} rad")
+            if abs(jump) > 1e-9:
+                rep.error(f"reference:{year}", "the piecewise-linear reference is itself discontinuous by more than 1e-9 rad")
+
+    return o7b_gast
+
+
+def replay_newyear(d):
+    from resonaate.physics.transforms.reductions import getRotR
+
+    y = int(d["year"])
+    ta = _dt.datetime(y, 12, 31, 23, 59, int(d["sa"]), int(d["usa"]))
+    tb = _dt.datetime(y + 1, 1, 1, 0, 0, int(d["sb"]), int(d["usb"]))
+    dut1, eqe = float(d["dut1"]), float(d["eqe"])
+    Ra, Rb = getRotR(ta, dut1, eqe), getRotR(tb, dut1, eqe)
+    ga, gb = math.atan2(Ra[1, 0], Ra[0, 0]), math.atan2(Rb[1, 0], Rb[0, 0])
+    _g0, w = _ref_year(y)
+    dt_days = Fraction((tb - ta) // _dt.timedelta(microseconds=1), 86400 * 10**6)
+    diff = _wrap_pm(gb - ga - float(w * dt_days % TWOPI_F))
+    return abs(diff) > 1e-9, {"angle before New Year": ga, "angle after": gb, "elapsed (s)": float(dt_days * 86400), "deviation from Earth rate (rad)": diff, "deviation (deg)": math.degrees(diff),
+                              "utc": [ta.isoformat(), tb.isoformat()]}
+
+
+def _o7e(years):
+    def o7e_newyear(rep):
+        """two instants on either side of a New Year through the real getRotR: the rotation angle advances by rate * elapsed time (no jump, no leap second assumed)"""
+        from resonaate.physics import maths as M
+        from resonaate.physics.transforms import reductions as RD
+
+        tol = rv(2 * TOL_RAD)
+        for year in years:
+            def run(year=year):
+                cap = []
+
+                def rec_rot3(a):
+                    cap.append(a)
+                    return M.rot3(a)
+
+                sa, usa, sb, usb = (integer(n) for n in ("sa", "usa", "sb", "usb"))
+                dut1, eqe = real("dut1"), real("eqe")
+                assume(sa.t >= 57, sa.t <= 59, sb.t >= 0, sb.t <= 2, usa.t >= 0, usa.t <= 999999, usb.t >= 0, usb.t <= 999999, dut1.t >= -Fraction(9, 10), dut1.t <= Fraction(9, 10),
+                       eqe.t >= -Fraction(1, 1000), eqe.t <= Fraction(1, 1000))
+                with shadow(RD, rot3=rec_rot3, timedelta=_Td):
+                    RD.getRotR(_Utc(year, 12, 31, 23, 59, sa, usa), dut1, eqe)
+                    RD.getRotR(_Utc(year + 1, 1, 1, 0, 0, sb, usb), dut1, eqe)
+                if len(cap) != 2:
+                    raise RuntimeError("getRotR did not build its matrix with exactly one rot3 call")
+                return (sa, usa, sb, usb, dut1, eqe), -cap[0], -cap[1]
+
+            res = explore(run, max_paths=200, max_depth=100)
+            _g0, w = _ref_year(year)
+            for r in res:
+                lab = f"{year}/{year + 1}[{_tag(r)}]"
+                if r.exc is not None:
+                    rep.error(lab, f"getRotR raised {type(r.exc).__name__}: {r.exc}")
+                    continue
+                (sa, usa, sb, usb, dut1, eqe), ga, gb = r.out
+                p = r.path
+                dt_days = (z3.ToReal(sb.t + 60 - sa.t) + z3.ToReal(usb.t - usa.t) / 1000000) / 86400
+                with resume(p):
+                    dm = (gb - ga - SReal(rv(w) * dt_days)) % (2 * math.pi)
+                inputs = lambda mo, v=(sa, usa, sb, usb, dut1, eqe), year=year: dict(year=year, sa=mval(mo, v[0]), usa=mval(mo, v[1]), sb=mval(mo, v[2]), usb=mval(mo, v[3]),  # noqa: E731
+                                                                                   dut1=mfloat(mo, v[4].t), eqe=mfloat(mo, v[5].t))
+                rep.prove(f"new-year {lab}", z3.Or(dm.t <= tol, dm.t >= rv(TWOPI_F) - tol), p.constraints(), timeout_ms=60000, inputs=inputs, replay=replay_newyear,
+                          sample="getRotR angle at 1 Jan 00:00:0x minus angle at 31 Dec 23:59:5x = Earth rate * elapsed time (mod 2pi) within 2e-9 rad, same dUT1 (symbolic, |dUT1| <= 0.9 s)")
+            rep.reachable(f"reach:{year}", res[0].constraints if res else [z3.BoolVal(False)])
+
+    return o7e_newyear
+
+
+def replay_tt(d):
+    """the model's rational second/dAT are converted to doubles: the neighbouring doubles are tried as well (the property has a step at TT = 24 h, a rational
+    model value on the step may round to either side)"""
+    from resonaate.physics.time.conversions import utc2TerrestrialTime
+
+    y, m, dd, h, mi = int(d["year"]), int(d["month"]), int(d["day"]), int(d["hour"]), int(d["minute"])
+    best = None
+    for s in (float(d["second"]), math.nextafter(float(d["second"]), math.inf), math.nextafter(float(d["second"]), -math.inf)):
+        for dat in (float(d["dat"]), math.nextafter(float(d["dat"]), math.inf), math.nextafter(float(d["dat"]), -math.inf)):
+            if not (0 <= s < 60):
+                continue
+            tt, ttt = utc2TerrestrialTime(y, m, dd, h, mi, s, dat)
+            jd = Fraction(_dt.date(y, m, dd).toordinal()) + Fraction("1721424.5") + (Fraction(h * 3600 + mi * 60) + Fraction(s) + Fraction(dat) + Fraction(32.184)) / 86400
+            exp = float((jd - 2451545) / 36525)
+            e1, e2 = abs(float(ttt) - exp), abs(float(tt) - (h * 3600 + mi * 60 + s + dat + 32.184))
+            det = {"second": s, "dat": dat, "ttt": float(ttt), "expected Julian centuries of TT": exp, "difference (days)": (float(ttt) - exp) * 36525, "tt_secs error": e2}
+            if e1 > 5e-13 or e2 > 1e-6:
+                return True, det
+            best = best or det
+    return False, best
+
+
+class _SymJD(SReal):
+    """JulianDate (a float subclass in /repo) re-based on the symbolic Real: the real getJulianDate body runs unchanged"""
+
+    __slots__ = ()
+
+    def __init__(self, v):
+        from symx.core import _real_term
+
+        SReal.__init__(self, _real_term(v))
+
+
+def _sym_float(x):
+    from symx.core import _real_term
+
+    if isinstance(x, (SReal, SInt)):
+        return SReal(_real_term(x))
+    return float(x)
+
+
+def _o7d(years):
+    def o7d_tt(rep):
+        """utc2TerrestrialTime: TT = UTC + dAT + 32.184 s as a Julian century count advances linearly through the day boundary"""
+        from resonaate.physics.time import conversions as CV
+        from resonaate.physics.time import stardate as SD
+        from symx.ext_c04 import real_divmod
+
+        _SymJD.getJulianDate = classmethod(SD.JulianDate.getJulianDate.__func__)
+        tol = rv(Fraction(1, 10**12))
+        for year in years:
+            def run(year=year):
+                m, d, h, mi = integer("month"), integer("day"), integer("hour"), integer("minute")
+                s, dat = real("second"), real("dat")
+                leap = z3.BoolVal(_isleap(year))
+                assume(m.t >= 1, m.t <= 12, d.t >= 1, d.t <= _dim_t(m.t, leap), h.t >= 0, h.t <= 23, mi.t >= 0, mi.t <= 59, s.t >= 0, s.t < 60, dat.t >= 10, dat.t <= 40)
+                with shadow(CV, JulianDate=_SymJD, float=_sym_float), real_divmod():
+                    tt, ttt = CV.utc2TerrestrialTime(year, m, d, h, mi, s, dat)
+                return (m, d, h, mi, s, dat), tt, ttt, leap
+
+            res = explore(run, max_paths=200, max_depth=100)
+            jd1 = Fraction(_dt.date(year, 1, 1).toordinal()) + Fraction("1721424.5")
+            crossed = False
+            for r in res:
+                lab = f"{year}[{_tag(r)}]"
+                if r.exc is not None:
+                    rep.error(lab, f"utc2TerrestrialTime raised {type(r.exc).__name__}: {r.exc}")
+                    continue
+                (m, d, h, mi, s, dat), tt, ttt, leap = r.out
+                utc = z3.ToReal(h.t * 3600 + mi.t * 60) + s.t
+                tts = utc + dat.t + rv(Fraction(32.184))
+                exp = (rv(jd1) + z3.ToReal(_days_before_t(m.t, d.t, leap)) + tts / 86400 - 2451545) / 36525
+                got, gtt = terms(ttt)[0], terms(tt)[0]
+                inputs = lambda mo, v=(m, d, h, mi, s, dat), year=year: dict(year=year, month=mval(mo, v[0]), day=mval(mo, v[1]), hour=mval(mo, v[2]), minute=mval(mo, v[3]),  # noqa: E731
+                                                                            second=mfloat(mo, v[4].t), dat=mfloat(mo, v[5].t))
+                # asked in two parts so that a counterexample is looked for first away from the step at TT = 24 h (a model value exactly on the step
+                # would not survive the conversion to doubles), then in the remaining 2 ms band
+                away = z3.Or(tts <= 86400 - rv(Fraction(1, 1000)), tts >= 86400 + rv(Fraction(1, 1000)))
+                what = "utc2TerrestrialTime: ttt = (JD(date) + (UTC + dAT + 32.184 s)/86400 - 2451545)/36525 for every instant (linear in time, also when TT is already in the next day)"
+                if rep.prove(f"ttt {lab}", z3.And(got - exp <= tol, exp - got <= tol), r.constraints + [away], timeout_ms=60000, inputs=inputs, replay=replay_tt, sample=what):
+                    rep.prove(f"ttt-at-24h {lab}", z3.And(got - exp <= tol, exp - got <= tol), r.constraints + [z3.Not(away)], timeout_ms=60000, inputs=inputs, replay=replay_tt,
+                              sample=what + " [within 1 ms of TT = 24 h]")
+                rep.prove(f"tt_secs {lab}", gtt == tts, r.constraints, timeout_ms=60000, inputs=inputs, replay=replay_tt, sample="tt_secs = UTC seconds of day + dAT + 32.184")
+                if not crossed and rep.feasible(f"reach:tt-next-day {lab}", r.constraints + [tts >= 86400]) not in (None, True):
+                    crossed = True
+            if not crossed:
+                rep.error(f"reach:{year}", "vacuous: no path with TT past the end of the UTC day")
+
+    return o7d_tt
+
+
+def replay_rollover(d):
+    from resonaate.physics.time.conversions import greenwichApparentTime
+
+    y, f, eqe = int(d["year"]), float(d["f"]), float(d["eqe"])
+    n = 366 if _isleap(y) else 365
+    a, b = greenwichApparentTime(y, n + f, eqe), greenwichApparentTime(y + 1, f, eqe)
+    diff = _wrap_pm(a - b)
+    return abs(diff) > 5e-10 or not (0 <= a < 2 * math.pi and 0 <= b < 2 * math.pi), {"GAST(year, days_in_year + f)": a, "GAST(year+1, f)": b, "difference (rad)": diff}
+
+
+def _o7c(years):
+    def o7c_rollover(rep):
+        from resonaate.physics.time import conversions as CV
+
+        tol = rv(TOL_RAD)
+        for year in years:
+            n = 366 if _isleap(year) else 365
+
+            def run(year=year, n=n):
+                f, eqe = real("f"), real("eqe")
+                assume(f.t >= 0, f.t < 1, eqe.t >= -Fraction(1, 1000), eqe.t <= Fraction(1, 1000))
+                return (f, eqe), CV.greenwichApparentTime(year, n + f, eqe), CV.greenwichApparentTime(year + 1, f, eqe)
+
+            res = explore(run, max_paths=16)
+            for r in res:
+                lab = f"{year}->{year + 1}[{_tag(r)}]"
+                if r.exc is not None:
+                    rep.error(lab, f"greenwichApparentTime raised {type(r.exc).__name__}: {r.exc}")
+                    continue
+                (f, eqe), ga, gb = r.out
+                p = r.path
+                with resume(p):
+                    dm = (ga - gb) % (2 * math.pi)
+                    rng = z3.And(ga.t >= 0, ga.t < rv(TWOPI_F), gb.t >= 0, gb.t < rv(TWOPI_F))
+                inputs = lambda mo, f=f, eqe=eqe, year=year: {"year": year, "f": mfloat(mo, f.t), "eqe": mfloat(mo, eqe.t)}  # noqa: E731
+                rep.prove(f"year-rollover {lab}", z3.Or(dm.t <= tol, dm.t >= rv(TWOPI_F) - tol), p.constraints(), timeout_ms=60000, inputs=inputs, replay=replay_rollover,
+                          sample="GAST(y, days_in_year(y) + f) = GAST(y+1, f) (mod 2pi) within 1e-9 rad for every day fraction f")
+                rep.prove(f"range {lab}", rng, p.constraints(), timeout_ms=60000, inputs=inputs, replay=replay_rollover, sample="GAST in [0, 2pi)")
+            rep.reachable(f"reach:{year}", res[0].constraints if res else [z3.BoolVal(False)])
+
+    return o7c_rollover
+
+
+# --------------------------------------------------------------------------------
+# O8: geodetic conversion
+# --------------------------------------------------------------------------------
+def _earth_consts():
+    from resonaate.physics.bodies import Earth
+
+    return Fraction(Earth.radius), Fraction(Earth.eccentricity)
+
+
+class _EarthX:
+    """Earth.radius / Earth.eccentricity as exact constants (their double values), so that sqrt(1 - e^2) is the exact real square root"""
+
+
+def _earthx():
+    a, e = _earth_consts()
+    _EarthX.radius, _EarthX.eccentricity = SReal(a), SReal(e)
+    return _EarthX
+
+
+TOL_KM = Fraction(1, 10**6)  # 1 mm
+KAPPA2 = Fraction(98, 100) ** 2  # region: on/outside the ellipsoid scaled by 0.98 (i.e. down to >= 127 km below the surface) ...
+RMAX = 70000  # ... and within 70000 km of the centre (> 10 Earth radii)
+
+
+def replay_lla2ecef(d):
+    from resonaate.physics.transforms.methods import lla2ecef
+
+    a, e = map(float, _earth_consts())
+    lat, lon, h = d["lat"], d["lon"], d["h"]
+    x = lla2ecef(np.array([lat, lon, h]))
+    x0 = lla2ecef(np.array([lat, lon, 0.0]))
+    n = np.array([math.cos(lat) * math.cos(lon), math.cos(lat) * math.sin(lon), math.sin(lat)])
+    e1 = abs((x0[0] ** 2 + x0[1] ** 2) / a**2 + x0[2] ** 2 / (a**2 * (1 - e**2)) - 1)
+    e2_ = np.abs(x[:3] - x0[:3] - h * n).max()
+    g = np.array([x0[0] / a**2, x0[1] / a**2, x0[2] / (a**2 * (1 - e**2))])
+    e3 = np.abs(np.cross(g, n)).max() * a
+    e4 = np.abs(x[3:]).max()
+    sc = max(1.0, abs(h))
+    xm = lla2ecef(np.array([-lat, lon, h]))
+    e5 = max(abs(xm[0] - x[0]), abs(xm[1] - x[1]), abs(xm[2] + x[2]))
+    return e1 > 1e-9 or e2_ > 1e-9 * sc or e3 > 1e-9 or e4 > 0 or g.dot(n) <= 0 or e5 > 1e-9 * sc, {"mirror": e5, "|ellipsoid equation at h=0|": e1, "|x(h) - x(0) - h n|": e2_, "|grad x n| * a": e3, "velocity": e4,
+                                                                                   "grad . n": g.dot(n)}
+
+
+def o8a_lla2ecef(rep):
+    """lla2ecef against the definition of geodetic coordinates (no use of the prime-vertical formula in the oracle)"""
+    from resonaate.physics.transforms import methods as T
+
+    a, e = _earth_consts()
+    with single_path() as p:
+        lat, lon, h = real("lat"), real("lon"), real("h")
+        cl, sl = lat.cos(), lat.sin()
+        co, so = lon.cos(), lon.sin()
+        assume(cl.t > 0)  # |lat| < pi/2 (the poles are pinned separately below)
+        inputs = lambda m: {"lat": math.atan2(mfloat(m, sl.t), mfloat(m, cl.t)), "lon": math.atan2(mfloat(m, so.t), mfloat(m, co.t)), "h": mfloat(m, h.t)}  # noqa: E731
+        with shadow(T, array=sym_array, Earth=_earthx()):
+            x = T.lla2ecef(np.array([lat, lon, h], dtype=object))
+            x0 = T.lla2ecef(np.array([lat, lon, SReal(0)], dtype=object))
+        cons = p.constraints()
+        A2, B2 = rv(a * a), rv(a * a * (1 - e * e))
+        X0 = terms(x0)
+        X = terms(x)
+        rep.prove("surface", (X0[0] * X0[0] + X0[1] * X0[1]) / A2 + X0[2] * X0[2] / B2 == 1, cons, inputs=inputs, replay=replay_lla2ecef,
+                  sample="lla2ecef(lat, lon, 0) lies on the reference ellipsoid (x^2+y^2)/a^2 + z^2/(a^2(1-e^2)) = 1")
+        n = [cl.t * co.t, cl.t * so.t, sl.t]
+        rep.prove("height-along-normal", z3.And(*[X[i] - X0[i] == h.t * n[i] for i in range(3)]), cons, inputs=inputs, replay=replay_lla2ecef,
+                  sample="lla2ecef(lat, lon, h) = lla2ecef(lat, lon, 0) + h (cos lat cos lon, cos lat sin lon, sin lat)")
+        g = [X0[0] / A2, X0[1] / A2, X0[2] / B2]
+        cr = [g[1] * n[2] - g[2] * n[1], g[2] * n[0] - g[0] * n[2], g[0] * n[1] - g[1] * n[0]]
+        rep.prove("normal-direction", z3.And(cr[0] == 0, cr[1] == 0, cr[2] == 0, g[0] * n[0] + g[1] * n[1] + g[2] * n[2] > 0), cons, inputs=inputs, replay=replay_lla2ecef,
+                  sample="the direction (cos lat cos lon, cos lat sin lon, sin lat) is the outward ellipsoid normal at the foot point (geodetic latitude)")
+        rep.prove("velocity-zero", z3.And(*[t == 0 for t in X[3:]]), cons, inputs=inputs, replay=replay_lla2ecef, sample="velocity part of lla2ecef is 0")
+        with shadow(T, array=sym_array, Earth=_earthx()):
+            Xm = terms(T.lla2ecef(np.array([-lat, lon, h], dtype=object)))
+        rep.prove("mirror", z3.And(Xm[0] == X[0], Xm[1] == X[1], Xm[2] == -X[2]), p.constraints(), inputs=inputs, replay=replay_lla2ecef, sample="lla2ecef(-lat, lon, h) is lla2ecef(lat, lon, h) mirrored in the equatorial plane")
+        # DESIGN's formulation with the prime-vertical radius (N from the oracle's own formula)
+        with resume(p):
+            N = SReal(a) / (SReal(1) - SReal(e * e) * sl * sl).sqrt()
+        rho2, zz = X[0] * X[0] + X[1] * X[1], X[2]
+        rep.prove("prime-vertical-form", z3.And(rho2 == ((N + h) * cl).t * ((N + h) * cl).t, zz == ((SReal(1 - e * e) * N + h) * sl).t), p.constraints(), inputs=inputs,
+                  replay=replay_lla2ecef, sample="x^2+y^2 = ((N+h) cos lat)^2, z = ((1-e^2) N + h) sin lat with N = a / sqrt(1 - e^2 sin^2 lat)")
+        rep.reachable("generic", p.constraints() + [h.t == 10, sl.t * 2 == 1])
+    # poles and equator (pinned latitudes, symbolic height): the closed forms the ecef2lla obligations use as oracle
+    for name, latv, want in (("north-pole", PI_F / 2, lambda hh, bb, co, so: [0, 0, bb + hh]), ("south-pole", -PI_F / 2, lambda hh, bb, co, so: [0, 0, -(bb + hh)]),
+                             ("equator", Fraction(0), lambda hh, bb, co, so: [(rv(a) + hh) * co, (rv(a) + hh) * so, 0])):
+        with single_path() as p:
+            lon, h = real("lon"), real("h")
+            co, so = lon.cos(), lon.sin()
+            with shadow(T, array=sym_array, Earth=_earthx()):
+                x = T.lla2ecef(np.array([SReal(latv), lon, h], dtype=object))
+            b0 = SReal(a) * (SReal(1) - SReal(e * e)).sqrt()
+            w = want(h.t, b0.t, co.t, so.t)
+            inputs = lambda m, latv=latv: {"lat": float(latv), "lon": math.atan2(mfloat(m, so.t), mfloat(m, co.t)), "h": mfloat(m, h.t)}  # noqa: E731
+            rep.prove(name, z3.And(*[xi == (wi if isinstance(wi, z3.ExprRef) else rv(wi)) for xi, wi in zip(terms(x)[:3], w)]), p.constraints(), inputs=inputs, replay=replay_lla2ecef,
+                      sample=f"lla2ecef at the {name}: closed form with b = a sqrt(1-e^2)")
+
+
+def replay_unique(d):
+    """two geodetic triples in the documented domain with the same lla2ecef image must be the same triple (real code, floats)"""
+    from resonaate.physics.transforms.methods import lla2ecef
+
+    p1, p2 = np.array(d["p1"], dtype=float), np.array(d["p2"], dtype=float)
+    x1, x2 = lla2ecef(p1), lla2ecef(p2)
+    same_img = float(np.abs(x1 - x2).max())
+    dl = max(abs(math.sin(p1[0]) - math.sin(p2[0])), abs(math.cos(p1[1]) - math.cos(p2[1])), abs(math.sin(p1[1]) - math.sin(p2[1])), abs(p1[2] - p2[2]) / 6378.0)
+    return same_img < 1e-9 and dl > 1e-6, {"|lla2ecef(p1) - lla2ecef(p2)|": same_img, "difference of the triples": dl}
+
+
+def o8u_unique(rep):
+    """lla2ecef is injective on {|lat| < pi/2, h >= -120 km} against any second preimage with h >= -6000 km: with the round trip of O8-x/y/axis this makes
+    ecef2lla the two-sided inverse.  Proof script on abstract variables; the link to the real code is the prime-vertical form of the real lla2ecef's output."""
+    from resonaate.physics.transforms import methods as T
+
+    a, e = _earth_consts()
+    A, E2 = rv(a), rv(e * e)
+    names = "c s co so h sN w t X0 X1 X2 rho".split()
+    V = {f"{n}{i}": z3.Real(f"{n}{i}_") for n in names for i in (1, 2)}
+    b, rd, rk = z3.Reals("b_ rd_ rk_")
+    C2 = A * A - b * b
+    Fa, S = {}, {}
+    Fa.update({"bsq": b * b == A * A * (1 - E2), "b!=0": b != 0, "b*rk>=0": b * rk >= 0, "b>0 if rk=0": z3.Implies(rk == 0, b > 0),
+               "shell": rd * rd * b * b + rk * rk * A * A >= rv(KAPPA2) * A * A * b * b, "rd>0": rd > 0,
+               "same-image": z3.And(V["X01"] == V["X02"], V["X11"] == V["X12"], V["X21"] == V["X22"]),
+               "rd=rho1": rd == V["rho1"], "rk=X21": rk == V["X21"], "rho-eq": V["rho1"] == V["rho2"], "t-eq": V["t1"] == V["t2"],
+               "U-lat": z3.And(V["c1"] == V["c2"], V["s1"] == V["s2"]), "U-h": V["h1"] == V["h2"], "U-lon": z3.And(V["co1"] == V["co2"], V["so1"] == V["so2"])})
+    for i in (1, 2):
+        c, s_, co, so, h, sN, w, t, X0, X1, X2, rho = (V[f"{n}{i}"] for n in names)
+        Fa.update({
+            f"c>0.{i}": c > 0, f"cs1.{i}": c * c + s_ * s_ == 1, f"lon1.{i}": co * co + so * so == 1, f"sN>0.{i}": sN > 0, f"sN2.{i}": sN * sN == 1 - E2 * s_ * s_,
+            f"h-lo.{i}": h >= (-120 if i == 1 else -6000),
+            f"pv.{i}": z3.And(X0 == rho * co, X1 == rho * so, rho == (A / sN + h) * c, X2 == ((1 - E2) * A / sN + h) * s_),
+            f"rho>0.{i}": rho > 0, f"s*z>=0.{i}": s_ * X2 >= 0,
+            f"w.{i}": z3.And(w >= 0, w * w == b * b * s_ * s_ + A * A * c * c), f"tdef.{i}": t * A * c == w - b * s_,
+            f"b*s>=0.{i}": b * s_ >= 0, f"t>0.{i}": t > 0, f"tan.{i}": s_ * 2 * b * t == c * A * (1 - t * t),
+            f"quarticR.{i}": (t * t * t * t - 1) * A * rd + 2 * (b * rk - C2) * t * t * t + 2 * (b * rk + C2) * t == 0,
+            f"img.{i}": z3.And(rd == (A / sN + h) * c, rk == ((1 - E2) * A / sN + h) * s_),
+        })
+        S.update({
+            f"rho>0.{i}": ([f"c>0.{i}", f"sN>0.{i}", f"sN2.{i}", f"cs1.{i}", f"h-lo.{i}", f"pv.{i}"], [f"rho>0.{i}", f"s*z>=0.{i}"]),
+            f"t.{i}": (["bsq", "b!=0", f"c>0.{i}", f"cs1.{i}", f"w.{i}", f"tdef.{i}"], [f"t>0.{i}", f"tan.{i}"]),
+            f"quarticR.{i}": (["bsq", "b!=0", f"c>0.{i}", f"cs1.{i}", f"sN>0.{i}", f"sN2.{i}", f"t>0.{i}", f"tan.{i}", f"img.{i}"], [f"quarticR.{i}"]),
+        })
+    S.update({
+        "rho-eq": (["same-image", "pv.1", "pv.2", "rho>0.1", "rho>0.2", "lon1.1", "lon1.2"], ["rho-eq"]),
+        "img.1": (["pv.1", "rd=rho1", "rk=X21"], ["img.1"]),
+        "img.2": (["pv.2", "rd=rho1", "rk=X21", "rho-eq", "same-image"], ["img.2"]),
+        "rd>0": (["rho>0.1", "rd=rho1"], ["rd>0"]),
+        "shell": (["bsq", "c>0.1", "cs1.1", "sN>0.1", "sN2.1", "h-lo.1", "img.1"], ["shell"]),
+        "t-eq": (["bsq", "b!=0", "rd>0", "b*rk>=0", "shell", "quarticR.1", "quarticR.2", "t>0.1", "t>0.2"], ["t-eq"]),
+        "U-lat": (["bsq", "b!=0", "t-eq", "t>0.1", "c>0.1", "cs1.1", "tan.1", "c>0.2", "cs1.2", "tan.2"], ["U-lat"]),
+        "U-h": (["U-lat", "c>0.1", "sN>0.1", "sN2.1", "sN>0.2", "sN2.2", "img.1", "img.2"], ["U-h"]),
+        "U-lon": (["same-image", "pv.1", "pv.2", "rho-eq", "rho>0.1"], ["U-lon"]),
+    })
+    with single_path() as p:
+        ch = Chain(rep, "U", Fa, S, timeout_ms=60000)
+        tr, X = {}, {}
+        with shadow(T, array=sym_array, Earth=_earthx()):
+            for i in (1, 2):
+                lat, lon, h = real(f"lat{i}"), real(f"lon{i}"), real(f"h{i}")
+                tr[i] = (lat.cos(), lat.sin(), lon.cos(), lon.sin(), h)
+                X[i] = terms(T.lla2ecef(np.array([lat, lon, h], dtype=object)))
+        # hypotheses of the claim (the documented domain and "same image")
+        assume(tr[1][0].t > 0, tr[2][0].t > 0, tr[1][4].t >= -120, tr[2][4].t >= -6000, *[X[1][k] == X[2][k] for k in range(3)])
+        sb = (SReal(1) - SReal(e * e)).sqrt()
+        sig = SReal(z3.If(X[1][2] < 0, z3.RealVal(-1), z3.RealVal(1)))
+        ch.bind(b, (SReal(a) * sb * sig).t)
+        for i in (1, 2):
+            c, s_, co, so, h = tr[i]
+            sN = (SReal(1) - SReal(e * e) * s_ * s_).sqrt()
+            for n, term in (("c", c.t), ("s", s_.t), ("co", co.t), ("so", so.t), ("h", h.t), ("sN", sN.t), ("X0", X[i][0]), ("X1", X[i][1]), ("X2", X[i][2])):
+                ch.bind(V[f"{n}{i}"], term)
+            ch.bind(V[f"rho{i}"], ch.inst((A / V[f"sN{i}"] + V[f"h{i}"]) * V[f"c{i}"]))
+            w = (SReal(ch.inst(b * b * V[f"s{i}"] * V[f"s{i}"] + A * A * V[f"c{i}"] * V[f"c{i}"]))).sqrt()
+            ch.bind(V[f"w{i}"], w.t)
+            ch.bind(V[f"t{i}"], ch.inst((V[f"w{i}"] - b * V[f"s{i}"]) / (A * V[f"c{i}"])))
+        ch.bind(rd, ch.inst(V["rho1"]))
+        ch.bind(rk, X[1][2])
+        cons = p.constraints()
+        ok = ch.leaf(["bsq", "b!=0", "b*rk>=0", "b>0 if rk=0"], cons) and ch.leaf("same-image", cons) and ch.leaf(["rd=rho1", "rk=X21"], [])
+        for i in (1, 2):
+            ok = ok and ch.leaf([f"c>0.{i}", f"cs1.{i}", f"lon1.{i}", f"h-lo.{i}"], cons) and ch.leaf([f"sN>0.{i}", f"sN2.{i}"], cons) and ch.leaf(f"pv.{i}", cons) and ch.leaf(f"w.{i}", cons)
+            ok = ok and ch.leaf(f"tdef.{i}", [], using=[f"c>0.{i}"]) and ch.apply(f"rho>0.{i}") and ch.apply(f"t.{i}")
+        ok = ok and ch.apply("rho-eq") and ch.apply("img.1") and ch.apply("img.2") and ch.apply("rd>0") and ch.apply("shell")
+        ok = ok and ch.apply("quarticR.1") and ch.apply("quarticR.2") and ch.apply("t-eq") and ch.apply("U-lat") and ch.apply("U-h") and ch.apply("U-lon")
+        for name, what in (("U-lat", "equal images => equal latitude"), ("U-h", "equal images => equal height"), ("U-lon", "equal images => equal longitude (cos, sin)")):
+            hyps, concl = S[name]
+            if ok:
+                rep.prove(name, z3.And(*[Fa[c] for c in concl]), [Fa[h] for h in hyps], timeout_ms=60000,
+                          sample=f"lla2ecef injective on |lat|<pi/2, h>=-120 km (second preimage h>=-6000 km): {what} [schema on abstract variables; hypotheses established on the real lla2ecef's terms]")
+            else:
+                rep.undecided(name, "proof script stopped: " + "; ".join(f"{n}: {w}" for n, w in ch.failed)[:300])
+        inputs = lambda m: {"p1": [math.atan2(mfloat(m, tr[1][1].t), mfloat(m, tr[1][0].t)), math.atan2(mfloat(m, tr[1][3].t), mfloat(m, tr[1][2].t)), mfloat(m, tr[1][4].t)],  # noqa: E731
+                            "p2": [math.atan2(mfloat(m, tr[2][1].t), mfloat(m, tr[2][0].t)), math.atan2(mfloat(m, tr[2][3].t), mfloat(m, tr[2][2].t)), mfloat(m, tr[2][4].t)]}
+        del inputs
+        rep.reachable("two-preimages-hypotheses", [c for c in p.constraints()] + [tr[1][4].t == 10, tr[2][4].t == 10, tr[1][1].t * 2 == 1, tr[2][1].t * 2 == 1, tr[1][2].t == 1, tr[2][2].t == 1], timeout_ms=60000)
+
+
+# ---- ecef2lla -------------------------------------------------------------------------------------------------
+def replay_geodetic(d):
+    """real ecef2lla, then real lla2ecef: must return the point; documented ranges; hemisphere; mirror symmetry"""
+    from resonaate.physics.transforms.methods import ecef2lla, lla2ecef
+
+    a, e = map(float, _earth_consts())
+    x = np.array(list(d["x"])[:3] + [0.0, 0.0, 0.0], dtype=float)
+    with np.errstate(all="ignore"):
+        lla = np.asarray(ecef2lla(x), dtype=float)
+        back = np.asarray(lla2ecef(lla), dtype=float)
+        xm = x.copy()
+        xm[2] = -xm[2]
+        llm = np.asarray(ecef2lla(xm), dtype=float)
+    err = float(np.abs(back[:3] - x[:3]).max()) if np.all(np.isfinite(back)) else float("inf")
+    rd = math.hypot(x[0], x[1])
+    out = {"ecef2lla(x)": lla.tolist(), "lla2ecef(ecef2lla(x))": back[:3].tolist(), "x": x[:3].tolist(), "round-trip error (km)": err, "ecef2lla(x mirrored in z)": llm.tolist()}
+    bad = err > 0.5e-6 or not np.all(np.isfinite(lla))
+    bad = bad or not (-math.pi / 2 - 1e-12 <= lla[0] <= math.pi / 2 + 1e-12) or not (-math.pi - 1e-12 <= lla[1] <= math.pi + 1e-12)
+    if abs(x[2]) > 1e-6 and abs(lla[0]) > 1e-9:
+        bad = bad or (lla[0] > 0) != (x[2] > 0)
+    outside = (rd * rd) / a**2 + x[2] ** 2 / (a**2 * (1 - e**2)) >= 1
+    if outside:
+        bad = bad or lla[2] < -0.5e-6
+    bad = bad or lla[2] < -130 - 1e-6
+    sym = max(abs(llm[0] + lla[0]), abs(llm[2] - lla[2]), abs(_wrap_pm(llm[1] - lla[1])))
+    out["mirror asymmetry"] = sym
+    bad = bad or sym > 0.5e-6
+    if rd < 1e-9:  # polar axis closed form
+        b0 = a * math.sqrt(1 - e * e)
+        out["polar closed form |z|-b"] = abs(x[2]) - b0
+        bad = bad or abs(lla[2] - (abs(x[2]) - b0)) > 0.5e-6 or math.cos(lla[0]) > 1e-6
+    if abs(x[2]) == 0:
+        out["equator closed form rho-a"] = rd - a
+        bad = bad or abs(lla[2] - (rd - a)) > 0.5e-6 or abs(lla[0]) > 1e-9
+    return bool(bad), out
+
+
+def _geo_facts():
+    """abstract facts and schemas of the Borkowski/Vallado closed form (all schemas are proved by z3 on free variables before use)"""
+    a, e = _earth_consts()
+    A, E2 = rv(a), rv(e * e)
+    V = {n: z3.Real(n + "_") for n in "E F P Q sD c1 c2 nu s2 G X st t u hy c s alt sN b rd rk oc os oalt co so B0 B1 B2 ri rj".split()}
+    oc, os_, oalt, co, so, B0, B1, B2, ri, rj = (V[n] for n in "oc os oalt co so B0 B1 B2 ri rj".split())
+    E, F, P, Q, sD, c1, c2, nu, s2, G, X, st, t, u, hy, c, s, alt, sN, b, rd, rk = (V[n] for n in "E F P Q sD c1 c2 nu s2 G X st t u hy c s alt sN b rd rk".split())
+    C2 = A * A - b * b
+    Fa = {
+        "Pdef": 3 * P == 4 * (E * F + 1), "Qdef": Q == 2 * (E * E - F * F), "F>E": F > E, "F>=-E": F >= -E, "P>0": P > 0,
+        "sD>=0": sD >= 0, "sD2": sD * sD == P * P * P + Q * Q, "dom-cbrt": z3.And(sD - Q >= 0, sD + Q >= 0),
+        "c1>=0": c1 >= 0, "c13": c1 * c1 * c1 == sD - Q, "c2>=0": c2 >= 0, "c23": c2 * c2 * c2 == sD + Q, "c1c2": c1 * c2 == P,
+        "nudef": nu == c1 - c2, "Q<=0": Q <= 0, "nu>=0": nu >= 0, "cubic": nu * nu * nu + 3 * P * nu + 2 * Q == 0,
+        "s2>=0": s2 >= 0, "s22": s2 * s2 == E * E + nu, "dom-s2": E * E + nu >= 0, "s2>0": s2 > 0,
+        "Gdef": 2 * G == s2 + E, "Xdef": X * s2 == F - nu * G, "X>0": X > 0, "dom-st": G * G + X >= 0,
+        "st>=0": st >= 0, "st2": st * st == G * G + X, "tdef": t == st - G, "t>0": t > 0,
+        "quartic": t * t * t * t + 2 * E * t * t * t + 2 * F * t - 1 == 0,
+        "bsq": b * b == A * A * (1 - E2), "b!=0": b != 0, "b*rk>=0": b * rk >= 0, "rd>0": rd > 0,
+        "Edef": E * A * rd == b * rk - C2, "Fdef": F * A * rd == b * rk + C2,
+        "quarticR": (t * t * t * t - 1) * A * rd + 2 * (b * rk - C2) * t * t * t + 2 * (b * rk + C2) * t == 0,
+        "shell": rd * rd * b * b + rk * rk * A * A >= rv(KAPPA2) * A * A * b * b,
+        "outside": rd * rd * b * b + rk * rk * A * A >= A * A * b * b,
+        "t<=1": t <= 1,
+        "udef": u * 2 * b * t == A * (1 - t * t), "hy>=0": hy >= 0, "hy2": hy * hy == 1 + u * u, "hy>0": hy > 0,
+        "cdef": c * hy == 1, "sdef": s * hy == u, "c>0": c > 0, "cs1": c * c + s * s == 1, "tan": s * 2 * b * t == c * A * (1 - t * t),
+        "altdef": alt == (rd - A * t) * c + (rk - b) * s,
+        "sN>=0": sN >= 0, "sN2": sN * sN == 1 - E2 * s * s, "dom-sN": 1 - E2 * s * s > 0, "sN>0": sN > 0,
+        "M1": A * c * (1 + t * t) == 2 * A * t * sN,
+        "back-r": (A / sN + alt) * c == rd, "back-z": ((1 - E2) * A / sN + alt) * s == rk,
+        "alt>=-130": alt >= -130, "alt>=0": alt >= 0, "b*s>=0": b * s >= 0,
+        # polar axis (rd is the tiny replacement value)
+        "rd-tiny": rd <= rv(Fraction(1, 10**15)), "|rk|>=6000": rk * rk >= 6000 * 6000, "|rk|<=RMAX": rk * rk <= RMAX * RMAX,
+        "c-tiny": c <= rv(Fraction(1, 10**18)), "rk*s>0": rk * s > 0,
+        "alt-polar+": z3.Implies(rk > 0, z3.And(alt - (rk - b) <= rv(Fraction(1, 10**9)), (rk - b) - alt <= rv(Fraction(1, 10**9)))),
+        "alt-polar-": z3.Implies(rk < 0, z3.And(alt + (rk - b) <= rv(Fraction(1, 10**9)), -(rk - b) - alt <= rv(Fraction(1, 10**9)))),
+    }
+    absb, absrk = z3.If(b >= 0, b, -b), z3.If(rk >= 0, rk, -rk)
+    Fa.update({
+        # the values that cross the API (oc, os = cos/sin of the returned latitude, oalt = returned height, co, so = cos/sin of the returned longitude,
+        # B = lla2ecef of the returned triple) identified with the abstract terms
+        "id-lat": z3.And(oc == c, os_ == s), "id-alt": oalt == alt,
+        "id-back": z3.And(B0 == (A / sN + alt) * c * co, B1 == (A / sN + alt) * c * so, B2 == ((1 - E2) * A / sN + alt) * s),
+        "id-lon": z3.And(co * rd == ri, so * rd == rj), "id-lon-axis": z3.And(co == 1, so == 0, ri == 0, rj == 0),
+        "dom-sD": P * P * P + Q * Q >= 0, "dom-hy": 1 + u * u >= 0, "dom-rho": ri * ri + rj * rj >= 0,
+        "G-roundtrip": z3.And(_absle(B0 - ri, TOL_KM), _absle(B1 - rj, TOL_KM), _absle(B2 - rk, TOL_KM)),
+        "G-alt>=-130": oalt >= -130 - rv(TOL_KM), "G-hemisphere": os_ * rk >= 0,
+        "G-alt>=0-outside": z3.Implies(rd * rd * b * b + rk * rk * A * A >= A * A * b * b, oalt >= -rv(TOL_KM)),
+        "G-polar-lat": z3.And(oc <= rv(Fraction(1, 10**18)), os_ * rk > 0), "G-polar-alt": _absle(oalt - (absrk - absb), Fraction(1, 10**9)),
+        "G-equator": z3.Implies(rk == 0, z3.And(os_ == 0, oalt == rd - A)),
+    })
+    geo = ["bsq", "rd>0", "t>0", "Edef", "Fdef", "quartic", "tan", "c>0", "cs1", "sN>0", "sN2", "altdef"]
+    near = ["bsq", "b!=0", "rd>0", "t>0", "b*rk>=0", "quarticR"]
+    S = {
+        "dom-cbrt": (["sD>=0", "sD2", "P>0"], ["dom-cbrt"]),
+        "c1c2": (["sD>=0", "sD2", "c1>=0", "c13", "c2>=0", "c23"], ["c1c2"]),
+        "cubic": (["c1c2", "c13", "c23", "nudef"], ["cubic"]),
+        "Q<=0": (["Qdef", "F>E", "F>=-E"], ["Q<=0"]),
+        "nu>=0": (["c13", "c23", "nudef", "Q<=0"], ["nu>=0"]),
+        "dom-s2": (["nu>=0"], ["dom-s2"]),
+        "s2>0": (["Pdef", "Qdef", "s2>=0", "s22", "nu>=0", "cubic", "F>E", "F>=-E"], ["s2>0"]),
+        "X>0": (["Pdef", "Qdef", "s2>0", "s22", "nu>=0", "cubic", "F>E", "F>=-E", "Gdef", "Xdef"], ["X>0"]),
+        "dom-st": (["X>0"], ["dom-st"]),
+        "t>0": (["st>=0", "st2", "X>0", "tdef"], ["t>0"]),
+        "quartic": (["Pdef", "Qdef", "cubic", "s22", "s2>0", "Gdef", "Xdef", "st2", "tdef"], ["quartic"]),
+        "quarticR": (["quartic", "Edef", "Fdef"], ["quarticR"]),
+        "t<=1": (near + ["shell"], ["t<=1"]),
+        "hy>0": (["hy>=0", "hy2"], ["hy>0"]),
+        "trig": (["udef", "hy>0", "hy2", "cdef", "sdef"], ["c>0", "cs1", "tan"]),
+        "dom-sN": (["cs1"], ["dom-sN"]),
+        "sN>0": (["sN>=0", "sN2", "cs1"], ["sN>0"]),
+        "M1": (["bsq", "t>0", "tan", "c>0", "cs1", "sN>0", "sN2"], ["M1"]),
+        "back-z": (geo, ["back-z"]),
+        "back-r": (geo + ["M1"], ["back-r"]),
+        "hemisphere": (["t>0", "t<=1", "tan", "c>0", "b!=0"], ["b*s>=0"]),
+        "alt>=-130": (near + ["shell", "tan", "c>0", "cs1", "altdef"], ["alt>=-130"]),
+        "alt>=0": (near + ["outside", "tan", "c>0", "cs1", "altdef"], ["alt>=0"]),
+        "c-tiny": (["c>0", "cs1", "sN>0", "sN2", "back-r", "back-z", "rd-tiny", "|rk|>=6000", "alt>=-130"], ["c-tiny", "rk*s>0"]),
+        "dom-sD": (["sD2"], ["dom-sD"]), "dom-sD0": (["P>0"], ["dom-sD"]), "dom-hy": ([], ["dom-hy"]), "dom-rho": ([], ["dom-rho"]),
+        "G-roundtrip": (["id-back", "id-lon", "back-r", "back-z", "rd>0"], ["G-roundtrip"]),
+        "G-roundtrip-axis": (["id-back", "id-lon-axis", "back-r", "back-z", "rd>0", "rd-tiny"], ["G-roundtrip"]),
+        "G-alt>=-130": (["id-alt", "alt>=-130"], ["G-alt>=-130"]),
+        "G-hemisphere": (["id-lat", "b*s>=0", "b*rk>=0", "b!=0"], ["G-hemisphere"]),
+        "G-alt>=0-outside": (near + ["tan", "c>0", "cs1", "altdef", "id-alt"], ["G-alt>=0-outside"]),
+        "G-polar-lat": (["id-lat", "c-tiny", "rk*s>0"], ["G-polar-lat"]),
+        "G-polar-alt": (["id-alt", "alt-polar+", "alt-polar-", "b*rk>=0", "b!=0", "|rk|>=6000"], ["G-polar-alt"]),
+        "G-equator": (near + ["shell", "tan", "c>0", "cs1", "altdef", "id-lat", "id-alt"], ["G-equator"]),
+        "alt-polar": (["c>0", "cs1", "rk*s>0", "t>0", "t<=1", "c-tiny", "altdef", "rd>0", "rd-tiny", "|rk|>=6000", "|rk|<=RMAX", "b*rk>=0", "bsq"], ["alt-polar+", "alt-polar-"]),
+    }
+    return V, Fa, S
+
+
+def _geo_run(cls):
+    """the real ecef2lla followed by the real lla2ecef on a symbolic ECEF position of one input class"""
+    from resonaate.physics.transforms import methods as T
+
+    a, e = _earth_consts()
+
+    def run():
+        if cls == "axis":
+            x = np.array([SReal(0), SReal(0), real("rk"), 0, 0, 0], dtype=object)
+        elif cls == "x":
+            x = np.array([real("ri"), real("rj"), real("rk"), 0, 0, 0], dtype=object)
+            assume(x[0].t != 0)
+        else:
+            x = np.array([SReal(0), real("rj"), real("rk"), 0, 0, 0], dtype=object)
+            assume(x[1].t != 0)
+        ri, rj, rk = terms(x[:3])
+        rho2 = ri * ri + rj * rj
+        assume(rho2 * rv(1 - e * e) + rk * rk >= rv(KAPPA2 * a * a * (1 - e * e)), rho2 + rk * rk <= RMAX * RMAX)
+        with shadow(T, sign=fork_sign, arctan=sym_arctan, array=sym_array, Earth=_earthx()), cbrt_pow():
+            out = T.ecef2lla(x)
+            back = T.lla2ecef(out)
+        return x, out, back
+
+    return run
+
+
+def _absle(t, tol):
+    return z3.And(t <= rv(tol), -t <= rv(tol))
+
+
+def _rt(x):
+    from symx.core import _real_term
+
+    return _real_term(x)
+
+
+def _geo_goals(r):
+    """behavioural claims over the values crossing the API on one path (name -> z3 goal)"""
+    a, e = _earth_consts()
+    x, out, back = r.out
+    X, O, B = [_rt(v) for v in x[:3]], [_rt(v) for v in out], [_rt(v) for v in back]
+    rho2 = X[0] * X[0] + X[1] * X[1]
+    g = {"roundtrip": z3.And(*([_absle(B[i] - X[i], TOL_KM) for i in range(3)] + [B[i] == 0 for i in range(3, 6)])),
+         "lat-range": z3.And(O[0] >= -rv(PI_F / 2), O[0] <= rv(PI_F / 2)), "lon-range": z3.And(O[1] > -rv(PI_F), O[1] <= rv(PI_F)),
+         "alt>=-130": O[2] >= -130 - rv(TOL_KM),
+         "alt>=0-outside": z3.Implies(rho2 * rv(1 - e * e) + X[2] * X[2] >= rv(a * a * (1 - e * e)), O[2] >= -rv(TOL_KM))}
+    return g
+
+
+def _inputs_geo(x):
+    X = [_rt(v) for v in x[:3]]
+    return lambda m: {"x": [mfloat(m, t) for t in X]}
+
+
+def _pins(cls):
+    """rational ECEF points (km) used only to look for counterexamples / witnesses with the inputs fixed (partial concretisation)"""
+    P = [(3000, -4000, 5000), (3000, -4000, -5000), (-6500, 200, 0), (1, 2, 6800), (1, -2, -6800), (Fraction(1, 10**10), Fraction(1, 10**10), -7000), (20000, 30000, -100),
+         (Fraction(1, 10**10), Fraction(-1, 10**10), 6900)]
+    if cls == "axis":
+        return [(0, 0, 7000), (0, 0, -7000), (0, 0, 42164), (0, 0, -6300)]
+    if cls == "y":
+        return [(0, q[1], q[2]) if q[1] else (0, 1, q[2]) for q in P]
+    return P
+
+
+def _candidates(rep, tag, r, ch, cls):
+    """A proof script that stops leaves solver models of its failed questions (inputs at which an intermediate value of the code is not what the closed
+    form requires).  Each is only a *candidate*: its inputs are replayed on the real code against the behavioural oracle (round trip, ranges, hemisphere,
+    symmetry, closed forms) and reported only if the real code violates it there.  For more generic points the failed question is asked again with the
+    inputs kept away from the coordinate planes."""
+    from symx.core import solve
+
+    x = r.out[0]
+    X = [_rt(v) for v in x[:3]]
+    tried = 0
+    for lab, model, hyps, neg in list(ch.cands)[:6]:
+        models = [model]
+        gen = [t * t >= 500 * 500 for t in X if not z3.is_rational_value(z3.simplify(t))]
+        v = solve(list(hyps) + [neg] + gen, 5000)
+        if v.status == "sat":
+            models.insert(0, v.model)
+        for m in models:
+            data = {"x": [mfloat(m, t) for t in X], "from": f"failed lemma {lab} on path {tag}"}
+            tried += 1
+            try:
+                bad, detail = replay_geodetic(data)
+            except Exception as e:  # noqa: BLE001
+                bad, detail = False, {"replay raised": repr(e)}
+            rep.items.append({"label": f"{tag}:candidate:{lab}", "kind": "candidate", "verdict": "sat", "secs": 0, "counterexample": data, "replay": {"reproduced": bool(bad), "detail": detail}})
+            if bad:
+                rep.concrete_violation(f"{tag}:{lab}", data, detail)
+                return True
+    rep.note(f"path {tag}: {tried} candidate(s) from failed lemmas replayed, none violates the behavioural oracle")
+    return False
+
+
+def _geo_chain(rep, tag, r, cls, extra=()):
+    """the lemma chain on one path; returns (Chain, hypotheses usable for the final goals) or (Chain, None)"""
+    from symx.core import free_vars, refute, trig
+
+    a, e = _earth_consts()
+    A, E2 = rv(a), rv(e * e)
+    p = r.path
+    x, out, back = r.out
+    if not all(isinstance(o, SReal) for o in out):
+        return None, None
+    C = p.constraints()
+    V, Fa, S = _geo_facts()
+    ch = Chain(rep, tag, Fa, S)
+    ch.V, ch.matches = V, []
+    _m = ch.match
+
+    def match(apps, arg, var, hyps, **kw_):
+        got = _m(apps, arg, var, hyps, **kw_)
+        if got:
+            ch.matches.append((str(var), got[0], got[1], got[2]))
+        return got
+
+    ch.match = match
+    ri, rj, rk = [_rt(v) for v in x[:3]]
+    inp = [c for c in C if free_vars(c) <= {"ri", "rj", "rk"}] + list(extra)
+    sq, cb = list(p.apps.get("sqrt", [])), list(p.apps.get("cbrt", []))
+    with resume(p):
+        rdv = (x[0] * x[0] + x[1] * x[1]).sqrt() if cls != "axis" else SReal(0)
+        sbv = (SReal(1) - SReal(e) ** 2).sqrt()
+        clat, slat = trig(out[0].t)
+        clon, slon = trig(out[1].t)
+    axis = cls == "axis"
+    eps = Fraction(float(np.finfo(np.float64).eps))
+    sb = sbv.t
+    base = inp + [sb >= 0, sb * sb == 1 - E2] + ([] if axis else [rdv.t >= 0, rdv.t * rdv.t == ri * ri + rj * rj])
+    sgn = None
+    for cand, cond in ((1, rk > 0), (-1, rk < 0), (1, rk == 0)):
+        if refute(cond, inp, 5000).status == "unsat":
+            sgn = cand
+            break
+    if sgn is None:
+        ch.failed.append(("sign", "the path does not fix the sign of r_k"))
+        ch.need_split = True
+        return ch, None
+    v = V
+    ch.bind(v["b"], A * sb * sgn)
+    ch.bind(v["rd"], rv(eps) if axis else rdv.t)
+    ch.bind(v["rk"], rk)
+    C2 = A * A - v["b"] * v["b"]
+    ch.bind(v["E"], ch.inst((v["b"] * v["rk"] - C2) / (A * v["rd"])))
+    ch.bind(v["F"], ch.inst((v["b"] * v["rk"] + C2) / (A * v["rd"])))
+    ch.bind(v["P"], ch.inst(4 * (v["E"] * v["F"] + 1) / 3))
+    ch.bind(v["Q"], ch.inst(2 * (v["E"] * v["E"] - v["F"] * v["F"])))
+    pos = []  # names of positivity facts whose instances help matching
+
+    def hy():
+        return base + ch.insts(pos)
+
+    def contract(var, arg, target, names, cube=False):
+        """restate the contract of a matched sqrt/cbrt application (var >= 0, var^2|3 == arg) on the abstract argument"""
+        return ch.leaf(names, [var >= 0, (var * var * var if cube else var * var) == arg, arg == target])
+
+    ok = (ch.leaf(["bsq", "b!=0", "b*rk>=0"], base) and ch.leaf("rd>0", base) and ch.leaf(["Edef", "Fdef"], [], using=["rd>0"]) and ch.leaf(["Pdef", "Qdef"], [])
+          and ch.leaf(["F>E", "F>=-E"], base) and ch.leaf("P>0", base, timeout_ms=60000) and ch.leaf("shell", base))
+    if not ok:
+        return ch, None
+    pos += ["rd>0"]
+    # a path on which the code took the D < 0 branch is infeasible in the region (P > 0 => D = P^3 + Q^2 >= 0): such paths only appear when the
+    # explorer's branch query timed out.  Decided here: the branch condition's term is proved equal to the instance of P^3 + Q^2.
+    ch.apply("dom-sD0")
+    tgt = ch.inst(v["P"] * v["P"] * v["P"] + v["Q"] * v["Q"])
+    for c in p.pc:
+        a0 = c.arg(0) if z3.is_not(c) else None
+        if a0 is not None and z3.is_le(a0) and z3.is_rational_value(a0.arg(0)) and a0.arg(0).numerator_as_long() == 0 and not z3.is_rational_value(a0.arg(1)) \
+                and free_vars(a0.arg(1)) - {"ri", "rj", "rk"}:
+            vd = refute(a0.arg(1) == tgt, hy(), 15000)
+            if vd.status == "unsat":
+                ch._record("infeasible:D<0", vd)
+                ch.infeasible = True
+                return ch, None
+    skip = [sb] + ([] if axis else [rdv.t])
+    m = ch.match(sq, v["P"] * v["P"] * v["P"] + v["Q"] * v["Q"], v["sD"], hy(), skip=skip)
+    if not (m and contract(m[0], m[1], m[2], ["sD>=0", "sD2"]) and ch.apply("dom-cbrt")):
+        return ch, None
+    skip.append(m[0])
+    m1 = ch.match(cb, v["sD"] - v["Q"], v["c1"], hy())
+    m2 = m1 and ch.match(cb, v["sD"] + v["Q"], v["c2"], hy(), skip=[m1[0]])
+    if not (m1 and m2 and contract(m1[0], m1[1], m1[2], ["c1>=0", "c13"], True) and contract(m2[0], m2[1], m2[2], ["c2>=0", "c23"], True) and ch.apply("c1c2")):
+        return ch, None
+    ch.bind(v["nu"], ch.inst(v["c1"] - v["c2"]))
+    if not (ch.leaf("nudef", []) and ch.apply("cubic") and ch.apply("Q<=0") and ch.apply("nu>=0") and ch.apply("dom-s2")):
+        return ch, None
+    m = ch.match(sq, v["E"] * v["E"] + v["nu"], v["s2"], hy(), skip=skip)
+    if not (m and contract(m[0], m[1], m[2], ["s2>=0", "s22"]) and ch.apply("s2>0")):
+        return ch, None
+    skip.append(m[0])
+    pos += ["s2>0"]
+    ch.bind(v["G"], ch.inst((v["s2"] + v["E"]) / 2))
+    ch.bind(v["X"], ch.inst((v["F"] - v["nu"] * v["G"]) / v["s2"]))
+    if not (ch.leaf("Gdef", []) and ch.leaf("Xdef", [], using=["s2>0"]) and ch.apply("X>0") and ch.apply("dom-st")):
+        return ch, None
+    m = ch.match(sq, v["G"] * v["G"] + v["X"], v["st"], hy(), skip=skip) or ch.match(sq, v["G"] * v["G"] + (v["F"] - v["nu"] * v["G"]) / (2 * v["G"] - v["E"]), v["st"], hy(), skip=skip)
+    if not (m and ch.leaf(["st>=0", "st2"], [m[0] >= 0, m[0] * m[0] == m[1], m[1] == m[2]], using=["s2>0"])):
+        return ch, None
+    skip.append(m[0])
+    ch.bind(v["t"], ch.inst(v["st"] - v["G"]))
+    if not (ch.leaf("tdef", []) and ch.apply("t>0") and ch.apply("quartic") and ch.apply("quarticR") and ch.apply("t<=1")):
+        return ch, None
+    pos += ["t>0"]
+    ch.bind(v["u"], ch.inst(A * (1 - v["t"] * v["t"]) / (2 * v["b"] * v["t"])))
+    if not ch.leaf("udef", [], using=["t>0", "b!=0"]):
+        return ch, None
+    m = ch.match(sq, 1 + v["u"] * v["u"], v["hy"], hy(), skip=skip)
+    if not (m and contract(m[0], m[1], m[2], ["hy>=0", "hy2"]) and ch.apply("hy>0")):
+        return ch, None
+    skip.append(m[0])
+    pos += ["hy>0"]
+    ch.bind(v["c"], ch.inst(1 / v["hy"]))
+    ch.bind(v["s"], ch.inst(v["u"] / v["hy"]))
+    ch.bind(v["alt"], ch.inst((v["rd"] - A * v["t"]) * v["c"] + (v["rk"] - v["b"]) * v["s"]))
+    if not (ch.leaf(["cdef", "sdef"], [], using=["hy>0"]) and ch.apply("trig") and ch.leaf("altdef", [])):
+        return ch, None
+    m = ch.match(sq, 1 - E2 * v["s"] * v["s"], v["sN"], hy(), skip=skip)
+    if not (m and contract(m[0], m[1], m[2], ["sN>=0", "sN2"]) and ch.apply("dom-sN") and ch.apply("sN>0")):
+        return ch, None
+    pos += ["sN>0"]
+    if not (ch.apply("M1") and ch.apply("back-z") and ch.apply("back-r") and ch.apply("hemisphere") and ch.apply("alt>=-130")):
+        return ch, None
+    if axis and not (ch.leaf("rd-tiny", []) and ch.leaf(["|rk|>=6000", "|rk|<=RMAX"], base) and ch.apply("c-tiny") and ch.apply("alt-polar")):
+        return ch, None
+    # identification of the values crossing the API with the instantiated abstract terms (ring identities in the contract variables)
+    O, B = [_rt(o) for o in out], [_rt(q) for q in back]
+    for name, term in (("oc", clat), ("os", slat), ("oalt", O[2]), ("co", clon), ("so", slon), ("B0", B[0]), ("B1", B[1]), ("B2", B[2]), ("ri", ri), ("rj", rj)):
+        ch.bind(v[name], term)
+    for name in ("id-lat", "id-alt", "id-back", "id-lon-axis" if axis else "id-lon"):
+        if not ch.leaf(name, hy(), timeout_ms=30000):
+            return ch, None
+    ch.base, ch.hy, ch.rk = base, hy, rk
+    return ch, True
+
+
+def _geo_domain(rep, tag, r, ch, kw):
+    """every sqrt/cbrt argument >= 0 and every divisor != 0 on the path (no nan): each recorded domain condition is proved either from what was
+    known when it arose, or after rewriting matched arguments (proved equal) to their abstract instance, from the established facts"""
+    from symx.core import refute
+
+    V = ch.V
+    dom_of = {"sD": "dom-sD", "c1": "dom-cbrt", "c2": "dom-cbrt", "s2": "dom-s2", "st": "dom-st", "hy": "dom-hy", "sN": "dom-sN"}
+    for sc in ("dom-sD", "dom-hy", "dom-rho"):
+        ch.apply(sc)
+    pairs = [(arg, target) for (_n, _v, arg, target) in ch.matches]
+    divisors = [("A*rd", rv(_earth_consts()[0]) * V["rd"], ["rd>0"]), ("s2", V["s2"], ["s2>0"]), ("2G-E", 2 * V["G"] - V["E"], ["s2>0", "Gdef"]), ("2bt", 2 * V["b"] * V["t"], ["t>0", "b!=0"]),
+                ("sN", V["sN"], ["sN>0"]), ("hy", V["hy"], ["hy>0"])]
+    for k, (cond, hk) in enumerate(r.path.domain_obligations()):
+        lab = f"{tag}:domain[{k}]"
+        sample = "every sqrt/cbrt argument is >= 0 and every divisor != 0 on the path (no nan)"
+        hs = slice_for(cond, hk)
+        v0 = refute(cond, hs, 1000)
+        if v0.status == "unsat":
+            rep.prove(lab, cond, hs, sample=sample, **kw)
+            continue
+        cond2 = z3.substitute(cond, *pairs) if pairs else cond
+        facts = [n for n in ("dom-sD", "dom-cbrt", "dom-s2", "dom-st", "dom-hy", "dom-sN", "dom-rho", "rd>0", "s2>0", "t>0", "b!=0", "sN>0", "hy>0") if n in ch.have]
+        v1 = refute(cond2, ch.insts(facts), 5000)
+        if v1.status == "unsat":
+            rep.prove(lab, cond2, ch.insts(facts), sample=sample + " [matched argument rewritten to its proved-equal instance]", **kw)
+            continue
+        done = False
+        if z3.is_distinct(cond) or (z3.is_not(cond) and z3.is_eq(cond.arg(0))):
+            d = cond.arg(0) if z3.is_distinct(cond) else cond.arg(0).arg(0)
+            for dn, dexpr, need in divisors:
+                if not ch.ok(*need):
+                    continue
+                tgt = ch.inst(dexpr)
+                ve = refute(d == tgt, ch.hy(), 5000)
+                if ve.status == "unsat":
+                    ch._record(f"divisor[{k}]={dn}", ve)
+                    rep.prove(lab, tgt != 0, ch.insts(need), sample=sample + f" [divisor proved equal to {dn}]", **kw)
+                    done = True
+                    break
+        if not done:
+            rep.prove(lab, cond, ch.base + ch.insts(ch.have), sample=sample, **kw)
+
+
+_GCACHE = {}
+
+
+def _o8_class(cls):
+    def o8_geodetic(rep):
+        from symx.core import free_vars, refute, solve
+
+        a, e = _earth_consts()
+        A = rv(a)
+        res = explore_inputs_first(_geo_run(cls), ("ri", "rj", "rk"), max_paths=40, branch_timeout_ms=2500)
+        rep.note(f"class {cls}: {len(res)} paths of ecef2lla+lla2ecef")
+        n_closed = 0
+        for r in res:
+            tag = _tag(r)
+            if r.exc is not None:
+                rep.error(f"{tag}", f"ecef2lla/lla2ecef raised {type(r.exc).__name__}: {r.exc}")
+                continue
+            x, out, back = r.out
+            C = r.constraints
+            goals = _geo_goals(r)
+            X = [_rt(t) for t in x[:3]]
+            O = [_rt(o) for o in out]
+            def direct_stage(to):
+                """decides paths that return an explicit formula (special-case branches); component-wise, the conjunction is much harder for nlsat.
+                Returns True when the path has been dealt with."""
+                Bt = [_rt(q) for q in back]
+                comps = [_absle(Bt[i] - X[i], TOL_KM) for i in range(3)]
+                vds = []
+                for g in comps:
+                    vds.append(refute(g, C, to))
+                    if vds[-1].status != "unsat":
+                        break
+                if not (vds[-1].status == "sat" or all(v.status == "unsat" for v in vds)):
+                    return False
+                if vds[-1].status == "unsat" and solve(C, 20000).status == "unsat":
+                    rep.note(f"path {tag} is infeasible (spurious fork)")
+                    return True
+                kw = dict(timeout_ms=60000, inputs=_inputs_geo(x), replay=replay_geodetic)
+                for i, g in enumerate(comps):
+                    rep.prove(f"{tag}:roundtrip[{i}]", g, C, sample="lla2ecef(ecef2lla(x)) = x within 1 mm, component-wise (explicit-formula path)", **kw)
+                for name, g in goals.items():
+                    if name != "roundtrip":
+                        rep.prove(f"{tag}:{name}", g, C, sample=f"ecef2lla then lla2ecef: {name} (explicit-formula path)", **kw)
+                rep.prove(f"{tag}:velocity-zero", z3.And(*[q == 0 for q in Bt[3:]]), C, sample="velocity part is 0", **kw)
+                rep.reachable(f"{tag}:reach", C, timeout_ms=30000)
+                return True
+
+            symbolic = all(isinstance(o, SReal) for o in out)
+            if not symbolic:
+                if direct_stage(40000):
+                    n_closed += 1
+                else:
+                    rep.undecided(f"{tag}:roundtrip", "explicit-formula path not decided in time")
+                continue
+            # 2. the closed form: lemma chain
+            ch, H = _geo_chain(rep, tag, r, cls)
+            if ch is not None and getattr(ch, "infeasible", False):
+                rep.note(f"path {tag} is infeasible (D < 0 cannot happen in the region; spurious fork of the explorer)")
+                continue
+            if not H and ch is not None and getattr(ch, "need_split", False):
+                # the code does not branch on the sign of r_k here: case split by the harness (each case is a sub-path)
+                subs = []
+                for nm, cond in (("z>0", X[2] > 0), ("z<0", X[2] < 0), ("z=0", X[2] == 0)):
+                    if refute(z3.Not(cond), [c for c in C if free_vars(c) <= {"ri", "rj", "rk"}], 5000).status != "unsat":
+                        subs.append(_geo_chain(rep, f"{tag}/{nm}", r, cls, extra=[cond]))
+                bad = [c for c, h in subs if not h]
+                if bad:
+                    for c in bad:
+                        if _candidates(rep, c.tag, r, c, cls):
+                            break
+                    else:
+                        rep.undecided(f"{tag}:roundtrip", "proof script stopped in a sign case and no candidate reproduces: " + "; ".join(f"{n}: {w}" for n, w in bad[0].failed)[:300])
+                    continue
+                rep.undecided(f"{tag}:roundtrip", "sign cases closed separately; per-case claims are not assembled (unexpected code shape)")
+                continue
+            if not H and direct_stage(20000):
+                n_closed += 1
+                continue
+            if not H:
+                why = "; ".join(f"{n}: {w}" for n, w in (ch.failed if ch else [("chain", "the path returns non-symbolic values")]))[:400]
+                if refute(z3.BoolVal(False), C, 15000).status == "unsat":
+                    rep.note(f"path {tag} is infeasible (spurious fork)")
+                    continue
+                if ch is None or not _candidates(rep, tag, r, ch, cls):
+                    rep.undecided(f"{tag}:roundtrip", f"proof script stopped ({why}); no candidate counterexample reproduces on the real code")
+                continue
+            n_closed += 1
+            kw = dict(timeout_ms=60000)
+
+            def claim(name, schema, what):
+                """a behavioural claim of the path = the instance of a goal fact; decided by the solver on the abstract variables from established facts only"""
+                hyps, concl = ch.S[schema]
+                miss = [h for h in hyps if h not in ch.have]
+                if miss:
+                    rep.undecided(f"{tag}:{name}", f"facts not established: {miss}")
+                    return
+                if schema not in _GCACHE:
+                    _GCACHE[schema] = refute(z3.And(*[ch.F[c] for c in concl]), [ch.F[h] for h in hyps], 60000)
+                v = _GCACHE[schema]
+                rep._item(f"{tag}:{name}", "prove", v)
+                rep.sample({"obligation": f"{rep.ob}:{tag}:{name}", "verdict": v.status, "what": what + " [instance of a schema proved on abstract variables; its hypotheses are established on the path]"})
+                if v.status == "sat":
+                    rep.error(f"{tag}:{name}", "goal schema is not valid (harness proof script is wrong)")
+                elif v.status != "unsat" and rep.status == "ok":
+                    rep.status = "undecided"
+
+            claim("roundtrip", "G-roundtrip-axis" if cls == "axis" else "G-roundtrip", "lla2ecef(ecef2lla(x)) = x within 1 mm (exact off the polar axis)")
+            rep.prove(f"{tag}:velocity-zero", z3.And(*[_rt(q) == 0 for q in back[3:]]), C, sample="velocity part of lla2ecef(ecef2lla(x)) is 0", **kw)
+            rep.prove(f"{tag}:lat-range", goals["lat-range"], slice_for(goals["lat-range"], C), sample="-pi/2 <= lat <= pi/2", **kw)
+            rep.prove(f"{tag}:lon-range", goals["lon-range"], slice_for(goals["lon-range"], C), sample="-pi < lon <= pi", **kw)
+            claim("alt>=-130", "G-alt>=-130", "height >= -130 km in the region (the nearest normal is selected)")
+            claim("hemisphere", "G-hemisphere", "sign(lat) = sign(z)")
+            claim("alt>=0-outside", "G-alt>=0-outside", "height >= 0 on and outside the ellipsoid")
+            claim("equator", "G-equator", "in the equatorial plane lat = 0 and alt = rho - a")
+            if cls == "axis":
+                claim("polar-lat", "G-polar-lat", "on the polar axis cos(lat) <= 1e-18 and lat has the sign of z")
+                claim("polar-alt", "G-polar-alt", "on the polar axis alt = |z| - a sqrt(1-e^2) within 1e-9 km (north and south)")
+            _geo_domain(rep, tag, r, ch, kw)
+            # vacuity: the branch conditions of the path are satisfiable together with the preconditions (contract variables are total on their proved domains)
+            pcv = [c for c in r.path.pc]
+            got = False
+            for q in _pins(cls):
+                pin = [t == rv(Fraction(val)) for t, val in zip(X, q) if not z3.is_rational_value(z3.simplify(t))]
+                if rep.feasible(f"{tag}:reach", ch.base + pcv + pin, timeout_ms=10000) not in (None, True):
+                    got = True
+                    break
+            if not got:
+                rep.reachable(f"{tag}:reach", ch.base + pcv, timeout_ms=30000)
+        if n_closed == 0 and not rep.violations and rep.status == "ok":
+            rep.error("closed-form", "vacuous: no path went through the closed form")
+
+    return o8_geodetic
+
+
+def p_domain(r):
+    return r.path.domain_obligations()
+
+
 REPLAYS = {"O1": replay_rot, "O2": replay_skew, "O3": replay_sez, "O4a": replay_fk5, "O4b": replay_eci}
+
+
+def _groups(lo, hi, n):
+    ys = list(range(lo, hi + 1))
+    k = -(-len(ys) // n)
+    return [ys[i:i + k] for i in range(0, len(ys), k)]
 
 
 def obligations(tier):
@@ -277,10 +1653,28 @@ def obligations(tier):
         Ob("O4a", o4a_fk5, "real ReductionParams.build on symbolic angles: W, PN, PNR orthogonal; transposes", 400),
         Ob("O4b", o4b_eci, "ECI <-> ECEF mutual inverses on 6-states, rigid (orthogonal-matrix cut)", 400),
     ]
-    try:
-        from harness import c04_more
-
-        obs += c04_more.obligations(tier)
-    except ImportError:
-        pass
+    obs.append(Ob("O5", o5_rsw, "RSW / NTW: rotation orthonormal, right-handed, axes along radius / velocity / orbit normal; eci2rsw and rsw2eci mutual inverses", 600))
+    REPLAYS["O5"] = replay_rsw
+    thorough = tier == "thorough"
+    ylo, yhi = (1583, 2399)
+    obs.append(Ob("O7a", _o7a(ylo, yhi), f"dayOfYear = true fractional day of year for every Gregorian date {ylo}..{yhi} (symbolic year, month, day, time)", 300))
+    REPLAYS["O7a"] = replay_doy
+    glo, ghi, ng = (1975, 2060, 43) if thorough else (2013, 2023, 11)
+    for g in _groups(glo, ghi, ng):
+        name = f"O7b-{g[0]}" + (f"-{g[-1]}" if len(g) > 1 else "")
+        obs.append(Ob(name, _o7b(g), f"getRotR angle advances at the Earth rate through every minute/day/month/leap-day boundary of {g[0]}..{g[-1]}", 1500))
+        REPLAYS[name] = replay_rotr
+    obs.append(Ob("O8a", o8a_lla2ecef, "lla2ecef satisfies the definition of geodetic coordinates on the reference ellipsoid; pole/equator closed forms", 300))
+    REPLAYS["O8a"] = replay_lla2ecef
+    for cls, what in (("axis", "on the polar axis"), ("x", "off the axis, x != 0"), ("y", "off the axis, x = 0")):
+        obs.append(Ob(f"O8-{cls}", _o8_class(cls), f"ecef2lla {what}: lla2ecef(ecef2lla(p)) = p, ranges, hemisphere, nearest normal, no nan; closed forms on axis/equator", 900))
+        REPLAYS[f"O8-{cls}"] = replay_geodetic
+    obs.append(Ob("O8u", o8u_unique, "geodetic coordinates are unique: lla2ecef injective on the documented domain (=> ecef2lla is the two-sided inverse, mirror symmetry)", 300))
+    REPLAYS["O8u"] = replay_unique
+    obs.append(Ob("O7c", _o7c(list(range(glo - 1, ghi + 1))), f"GAST continuous over every year boundary {glo - 1}/{glo} .. {ghi}/{ghi + 1}", 600))
+    REPLAYS["O7c"] = replay_rollover
+    obs.append(Ob("O7d", _o7d(list(range(glo, ghi + 1))), f"utc2TerrestrialTime: TT Julian centuries linear in time through the day boundary, every instant of {glo}..{ghi}", 900))
+    REPLAYS["O7d"] = replay_tt
+    obs.append(Ob("O7e", _o7e(list(range(glo - 1, ghi + 1))), f"getRotR across every New Year {glo - 1}/{glo} .. {ghi}/{ghi + 1}: angle advances at the Earth rate with symbolic dUT1", 900))
+    REPLAYS["O7e"] = replay_newyear
     return obs
